@@ -12,1198 +12,2810 @@ Definition show_fres (r : fres) : string :=
   end.
 Definition check (rs : list rune) : string := digest (show_fres (format_res rs)).
 Definition full (rs : list rune) : string := show_fres (format_res rs).
-Eval vm_compute in ("<<<M273>>>" ++ check (runes_of_ascii "packet len
-{  @calculatedFrom( ""`tick`"" )	repeat zchar[ 00
-    ]chars //	t
-`a\`
-    ,
-u8x
-// trailing space 
-// a // b
-MetaDataX `line1
-line2`
-    // c
-    ,@calculatedFrom( ""a\""b"" ) match
-    matchKey as asx {
-    [ ""CRC32"" , ""a\""b""
-]// " ++ [27880; 37322]%N ++ runes_of_ascii "
-:
-msg_type
-    ,
+Eval vm_compute in ("<<<M3978>>>" ++ check (runes_of_ascii "  options
+
+{ 
+StringPrefixLenType
+
+=
+u8 ;ArrayPrefixLenType =u64
+    ;FixedStringPadFromLeft	=
+    true;	JavaPackage
+
+    = ""co\
+m.example.msg"" ; GoPackage 
+=
+""ms\
+g""
+    ;
+
+GoModule
+	= ""example.com/msg""	;
     }
-, i8 string_ @calculatedFrom( ""{,}"" )
-    ,@lengthOf(
-lengthOf
-    //
-    ) zchar[42 ]
-    _x
-// packet A { u8 x, }
-/// triple
-`line1
-line2` ,
-    @lengthOf( asx) repeat// `tick` ""quote"" 'q'
-int8 Header , repeat crc {
-int8 i64_//x
-@calculatedFrom( ""{,}"" ) , } ,repeat _x i8i8 `line1
-line2` , float64// trailing space 
-stringy , MetaDataX { charz
-    { int16 matchKey, repeat
-    i64_,
-    char[ 00] Z9_ `
-` ,
-    match As
-    //x
-    as Packet { 3 : crc , [
-//	t
-// @lengthOf(
-1 ,
-00
-]: Header // " ++ [27880; 37322]%N ++ runes_of_ascii "
-,	255 :_x , 42 : body
-,	[0	] : chars
-    [ 4294967296
-, 65535 ] :chars , }
-/// triple
-// @lengthOf(
-,  }
-// trailing space 
-// @lengthOf(
-, } , } MetaData falsey {
-char[
-255
-] u128 , u8 Header`tab	here`
+	MetaData Meta {
+u32
+SeqNum  `sequence number`
+    , char[
+8 ] Symbol `symbol`
 ,
-string float ,} root packet int { Logon i64_  ,
-    @calculatedFrom(
-""1""
-) zchar { u {
-    zchar[
-255 ] Pad , } , stringy {
-    Pad metadata `u8 x,` ,
-}	, repeat	string i8i8, char[]
-    As@calculatedFrom(
-""\n"" ) ,}
-    // " ++ [27880; 37322]%N ++ runes_of_ascii "
-    , @lengthOf( packetx // a // b
-) @lengthOf(
-    i64_ ) body `line1
-line2`,@lengthOf(roots)match
-// `tick` ""quote"" 'q'
-// trailing space 
-MetaDataX as uint8x { // `tick` ""quote"" 'q'
-[	007
-/// triple
-// " ++ [27880; 37322]%N ++ runes_of_ascii "
-, //x
-255
+	zchar[ 5	]ZSym`z symbol`
+
     ,
-00]
-    :	body// c
-, [ 65535 , ""1"",// `tick` ""quote"" 'q'
-1  ,
-""\n""//	t
-, 1	,
-    ""CRC32""
+	string
+Note
+
+,  Symbol
+AltSymbol `alias of symbol`
+
+    , f64
+    Price ,
+
+    }
+packet	Inner
+	{ u8 a
     ,
-    //	t
-    0
-    ] :trueish
+
+    i16
+	b
+
+, string
+c
 ,
-} , uint64 Foo
-, zchar {metadata
-@lengthOf(Pad)//	t
-`crlf
-line` ,
-    match u as charz { 65535 :
-    //x
-    int
-[ ""1""]
-:
-// c
-//
-a1 , [4294967296 , 00,""" ++ [233]%N ++ runes_of_ascii "t" ++ [233]%N ++ runes_of_ascii """ , """ ++ [28040; 24687]%N ++ runes_of_ascii """ ,
-    00 ]: matchKey , [ ""a\\"" ] : Logon ,
-    },
-repeat rootA { int16
-Foo @lengthOf( rootA // " ++ [27880; 37322]%N ++ runes_of_ascii "
-),options1 `u8 x,` // trailing space 
-, }	,  },  match chars as u
-// " ++ [128512]%N ++ runes_of_ascii " emoji
-// " ++ [128512]%N ++ runes_of_ascii " emoji
-{ [//
-""it's"" , 007	, """ ++ [233]%N ++ runes_of_ascii "t" ++ [233]%N ++ runes_of_ascii """, ""abc"" ,""\n"" ,
-// " ++ [128512]%N ++ runes_of_ascii " emoji
-// " ++ [27880; 37322]%N ++ runes_of_ascii "
-"""" // c
-] :	repeatCount,
-65535
-    // " ++ [128512]%N ++ runes_of_ascii " emoji
-    :Z9_
-, [ 007  , ""abc"",""// no comment""
-, """ ++ [28040; 24687]%N ++ runes_of_ascii """ ] :  falsey ,
-00
-:
-    string_}
-,  char repeatCount , } packet Foo {char[]
-a1 @calculatedFrom( """")`line1
-line2`
-, uint16 // a // b
-MetaDataX
-    // packet A { u8 x, }
-    `say ""hi""`,char[] A ,
-// trailing space 
-// " ++ [128512]%N ++ runes_of_ascii " emoji
-f64 int @lengthOf(Pad  ) , u32
-    BodyLength
-, float64
-trueish @lengthOf(lengthOf )
-// `tick` ""quote"" 'q'
-// trailing space 
-`crlf
-line` , @tag(255 ) match Z9_ as tag { [ ""a\""b"",4294967296  ,  ""{,}"" ,""{,}""/// triple
-] :	Pad	, 1 : lengthOf ,	0123456789 : msg_type  , ""// no comment"":
-    BodyLength, [ ""1"" ] : string_ [3 , 0,1 , 1
-, ""\" ++ [233]%N ++ runes_of_ascii """ // " ++ [27880; 37322]%N ++ runes_of_ascii "
-,
-    """"
-    , 00
-    // c
-    ] // c
-: asx} , body `say ""hi""`// `tick` ""quote"" 'q'
-,	}options { x	='0'
-; u8x // " ++ [128512]%N ++ runes_of_ascii " emoji
-= u64;
-// c
-//	t
-string_ = ""a\""b"" }
-")).
-Eval vm_compute in ("<<<M1817>>>" ++ check (runes_of_ascii "root packet Logon {
-    zchar[65535] uint8x,
-    @leftPad()
-    repeat f32 Packet,
-    @leftPad(' ')
-    match i8i8 as body {
-        65535 : MetaDataX,
-        007 : Packet,
-    },
-    @calculatedFrom(""packet"")
-    uint8x,
-    Foo @lengthOf(asx),
-    i64 int,//
-    @leftPad(' ')
-    repeat rootA {
-        int32 zchar,
-        match stringy as MetaDataX {
-            [
-                """ ++ [28040; 24687]%N ++ runes_of_ascii """, 10, 42, ""a\""b"", 42,
-                7
-            ] : msg_type,
-            [42] : stringy,
-            ""a\\"" : Header,
-            255 : calculatedFrom,
-            // a // b
-            /// triple
-            [007] : MetaDataX,
-            ""a\""b"" : stringy,
-        },
-        char[007] int @lengthOf(o) `" ++ [233]%N ++ runes_of_ascii "`,
-        // trailing space 
-        //x
-    },
-    @leftPad()
-    @lengthOf(metadata)
-    match asx as leftPad {
-        ""x y"" : matchKey,
-        // packet A { u8 x, }
-    },
-    repeat leftPad `say ""hi""`,
-    char[65535] Packet,
 }
+	packet
+    Inner2
 
-root packet x_y_z {
-    match uint8x as As {
-        [0123456789] : T,
-        65535 : x_y_z,
-        ""\n"" : u,
-        4294967296 : Packet,
-        [65535] : T,
-        255 : uint8x,
-    },
-    int32 Packet `tab	here`,
-    @calculatedFrom("""")
-    @calculatedFrom(""a\\"")
-    u64 repeatCount @calculatedFrom(""""),
-    Header zchar `doc`,
-    match _x as metadata {
-        [255, ""1""] : Logon,
-        [
-            """ ++ [233]%N ++ runes_of_ascii "t" ++ [233]%N ++ runes_of_ascii """, 00, 65535, 7, 42,
-            00
-        ] : packetx,
-        4294967296 : stringy,
-    },
-    char[00] tag `doc`,
-    @lengthOf(int)
-    string u,
-    @tag(007)
-    int16 stringy,
-    float64 crc,
-    @calculatedFrom(""x y"")
-    repeat u16 f32a,
-}
-
-options {
-    u128 = ""CRC32""
-    options1 = false
-    u8x = ""`tick`"";
-}")).
-Eval vm_compute in ("<<<M1750>>>" ++ check (runes_of_ascii "  MetaData roots
-
-    { zchar[
-7] body
-    ,}
-	packet trueish {
-
-    repeat 
-zchar[
-	0123456789  ]
-	i8i8
-
-    `line1
-line2` 
-        //x
-	/// triple
-	  , } 
+{ u8 a2
+    , char[3]c2 ,}
 packet
+    Logon
+{ u8	x ,string  user ,
+	repeat
+	u16	codes	,
+	} packet
 
-u8x {  x_y_z
+Logout	{
+u16 reason
 
-chars
+    ,
+
+}
+	packet Empty  { 
+}root packet  Msg { u8	su8,  uint8	luint8 ,
+	u16  su16
 
 ,
+uint16 luint16
 
-@calculatedFrom(
-    """ ++ [28040; 24687]%N ++ runes_of_ascii """ ) @calculatedFrom(
-	""" ++ [28040; 24687]%N ++ runes_of_ascii """	) @tag( 007
+    ,
+	u32
+	su32 ,
 
-    ) int64
+    uint32
+	luint32
 
-Foo// trailing space 
-	,
-int8 _x  `it's`
+    , u64
+	su64
+    , 
+uint64
+
+    luint64,i8	si8
+
+,int8
+	lint8,
+i16	si16
+    ,	int16 lint16 ,
+    i32
+si32,  int32 lint32 , 
+i64
+si64 
 ,
-	match
 
-x
-	as
-    Foo
-{ [	// c
-		65535
-    ,""" ++ [233]%N ++ runes_of_ascii "t" ++ [233]%N ++ runes_of_ascii """ ,""abc"" ,""\" ++ [233]%N ++ runes_of_ascii """	// @lengthOf(
+int64 lint64
+    ,
 
-	,	10
+f32
+
+    sf32,
+
+    float32	lfloat32 ,
+	f64 sf64
+    ,
+
+float64 lfloat64	, 
+char[6 ]
+
+fsplain
+,
+
+    @leftPad
+	('0'
+
+    ) char[
+
+    4	] fs0
+
+    ,  @rightPad
+( 
+'0' ) char[ 5]  fs1
+	,@leftPad
+	( ' '  ) char[ 6 ] fs2
+,@rightPad	(' '
+    )
+char[
+	7]
+fs3
+
+,
+	@leftPad
+
+( '\x00'
+	) char[	8]fs4,@rightPad (
+
+'\x00'
+
+    )
+char[
+9 ]
+    fs5
+
+,
+    @leftPad
+
+    (
+    )
+    char[10 ]
+
+    fs6 ,  @rightPad (
+    )
+	char[
+11] 
+fs7
+
+    ,	zchar[ 
+7
+	]
+
+    fz
+
+,
+    @leftPad  (
+
+'0')
+
+zchar[	3
 
     ]
-    : 	 // packet A { u8 x, }
-	  Pad , }	,
+    fzl0
 
-body
+    ,string 
+s1 `doc`
+    , char[]
+	s2
+	,
+Inner,
+
+    Sub
+{ u8  q 
+, string  w
+    ,Deep
 {
-    match
 
-msg_type as
-	uint8x
+    u16  z
+	, repeat i32
+	zs
 
-{  ""a\""b"":falsey 
-0	: Packet  ""it's"" :  lengthOf  //	t
-    """ ++ [28040; 24687]%N ++ runes_of_ascii """  : charz
+    , }
+,	}	,
 
-, }  ,
-// a // b
-    }
-, @tag( 42 )
+    repeat
+u8
 
-    @calculatedFrom(
-    ""\" ++ [233]%N ++ runes_of_ascii """)// c
-  @lengthOf(u )
-	repeat  char
-    calculatedFrom , @tag(
-// @lengthOf(
-	// " ++ [128512]%N ++ runes_of_ascii " emoji
-	1
-    )@rightPad( '\x00'
-	)
-    @lengthOf(
+    ru8  ,
+repeat u16 ru16 ,
+	repeat
+    u32
 
-    f32a	) 
-int16	pack `" ++ [233]%N ++ runes_of_ascii "`,  @lengthOf(
-    // c
-  A  //x
+    ru32
+,	repeat u64
 
-	)	repeat
-char[]  options1 , 
-}
-packet _x {
+ru64 ,repeat
 
-    @lengthOf( options1)  string	u8x@lengthOf(	_x	// a // b
-) 
+i8  ri8, 
+repeat i16 ri16,	repeat  i32
+	ri32,
+
+    repeat
+
+i64 
+ri64 
+,	repeat
+
+f32
+	rf32 ,  repeat f64 rf64
+
+    ,
+
+    repeat
+
+    string	rstr
+
+, repeat char[] rstr2, repeat char[
+3
+	]rfs
+
+, repeat
+zchar[
+	3  ]
+rfz	, 
+repeat
+Inner2 ,
+repeat Grp {  u8 k ,
+char[
+    2	]
+
+v
+
+,
+} ,
+SeqNum
+,	SeqNum seq2 ,repeat
+
+    SeqNum
+	seqs
+	, Symbol 
+, AltSymbol
+
+alt
+    , ZSym  ,Note
+,
+	repeat Symbol
+	syms
 , 
-repeat 
-  // " ++ [128512]%N ++ runes_of_ascii " emoji
-// packet A { u8 x, }
+Price
+	px ,
+	u16 MsgType
 
-Pad {	As
-	{
-	matchKey
-    chars	,
-}
-, // trailing space 
-    } , repeat 
-string
-    crc 
-        //
-    `line1
-line2` ,  
-  //
-}	packet crc {
-    @calculatedFrom( ""{,}"" 
-) a1 u128
-
-    , }	//	t")).
-Eval vm_compute in ("<<<M294>>>" ++ check (runes_of_ascii "MetaData roots { zchar[ 7 ] body , } packet trueish { repeat zchar[ 0123456789
-] i8i8 `line1
-line2`
-//x
-/// triple
-, } packet u8x { x_y_z chars
-, @calculatedFrom( """ ++ [28040; 24687]%N ++ runes_of_ascii """) @calculatedFrom(
-    """ ++ [28040; 24687]%N ++ runes_of_ascii """ )
-    @tag( 007) int64
-Foo// trailing space 
-,int8 _x`it's`
-, match x as Foo {
-[// c
-65535,	""" ++ [233]%N ++ runes_of_ascii "t" ++ [233]%N ++ runes_of_ascii """	,""abc"" ,
-""\" ++ [233]%N ++ runes_of_ascii """// @lengthOf(
-,	10 ]: // packet A { u8 x, }
-Pad
-, } ,
-body
-{ match msg_type as uint8x {
-""a\""b"" :	falsey 0 :  Packet""it's""
-:lengthOf //	t
-""" ++ [28040; 24687]%N ++ runes_of_ascii """:
-charz ,} ,
-    // a // b
-    }	,	@tag( 42 )@calculatedFrom(
-""\" ++ [233]%N ++ runes_of_ascii """
-    )// c
+    ,
+u32 
+BodyLen
 @lengthOf(
-u )
-    repeat char
-calculatedFrom	, @tag(
-// @lengthOf(
-// " ++ [128512]%N ++ runes_of_ascii " emoji
-1  )
-@rightPad ( '\x00'
-) @lengthOf( f32a )
-int16 pack
-`" ++ [233]%N ++ runes_of_ascii "` , @lengthOf(
-    // c
-    A //x
-) repeat
-char[]
-    options1 , } packet _x { @lengthOf(
-    options1)  string
-    u8x @lengthOf(
-_x// a // b
-), repeat
-// " ++ [128512]%N ++ runes_of_ascii " emoji
+Body )
+    ,	match
+    MsgType
+
+as Body {
+
+    1
+:
+Logon,
+[  2  ,  3	]
+
+:
+    Logout ,
+7
+    :
+Logon,
+
+9
+: Empty, 
+} 
+,
+    u32	Checksum
+@calculatedFrom(  ""CRC32"" ) , }")).
+Eval vm_compute in ("<<<M799>>>" ++ check (runes_of_ascii "options{ msg_type
+    = ""packet""//x
+;leftPad// trailing space 
+=  ' ' ;
+x_y_z = ' ' ;
+}
+root packet  A//
+{
+    //x
+    zchar[
+42]
+    options1 `u8 x,` ,
+float64 uint8x `a\` ,
+packetx @lengthOf(BodyLength) `tab	here`
+    ,
+    chars	u8x	`100% of %d`
+, @leftPad ( ) repeat
+i64_ charz
+`u8 x,`
+, repeat crc { msg_type asx ,
+}, repeat f32a  , char[ 00 ] o `" ++ [233]%N ++ runes_of_ascii "`
+    ,
+@lengthOf( float )
+leftPad @calculatedFrom(
+//	t
 // packet A { u8 x, }
-Pad
-{ As	{ matchKey chars ,
-} ,// trailing space 
-} ,repeat string crc
-    //
-    `line1
+""a	b"" ) ,} packet
+    Packet
+{
+    i16	asx`a\` //	t
+, @calculatedFrom(
+""" ++ [128512]%N ++ runes_of_ascii """) @lengthOf(
+/// triple
+/// triple
+f32a) @lengthOf( Pad)repeat
+    // a // b
+    pack
+    i64_ `// not a comment`, char[] len  `u8 x,`, repeat char[]  asx  ,match repeatCount
+as uint8x {
+00: trueish 00 : Z9_ , 7 : u,
+    [  00 ,7 , ""abc"" , ""1""	] :charz [ 1 ,""abc"" , ""a\\"" ,
+65535 , 007 ]: Packet, } ,	@calculatedFrom( ""{,}""
+) repeatCount body `it's` , @leftPad (
+    // c
+    '\x00' )repeat
+    len // a // b
+`line1
 line2` ,
-    //
-    } packet crc{@calculatedFrom( ""{,}"" )  a1 u128 , } //	t")).
-Eval vm_compute in ("<<<M1563>>>" ++ check (runes_of_ascii "options {
-    LittleEndian = false;
-    FixedStringPadFromLeft = false;
-    FixedStringPadChar = ' ';
+@tag(  007 )  match metadata as string_ {
+[  ""x y""] : falsey
+    // packet A { u8 x, }
+    } // @lengthOf(
+,
+@leftPad ( '\x00' ) packetx	, // c
+} root
+packet T{@rightPad( ' ') repeat
+    //x
+    lengthOf f32a
+`line1
+line2`, @tag(00 )
+char[ 1 ]
+    body, repeat calculatedFrom , // a // b
+repeat
+    Z9_
+//	t
+//	t
+,
+repeat
+u8x	{ metadata
+{ match  repeatCount as falsey	{ 007// trailing space 
+:
+len , ""packet"" : T//x
+,65535 :	T , }	,
+} ,  u16 string_ `u8 x,`	, match float as MetaDataX { ""\" ++ [233]%N ++ runes_of_ascii """ : int
+, [ 10 , 1
+,0 ,
+3, ""// no comment"" ,
+    """ ++ [28040; 24687]%N ++ runes_of_ascii """	, 00 ,  4294967296 // " ++ [128512]%N ++ runes_of_ascii " emoji
+]
+    // packet A { u8 x, }
+    :Header
+, [""{,}"" ,
+42
+    // `tick` ""quote"" 'q'
+    ] :
+matchKey,
+    [ 255, 10/// triple
+, 1 ,
+    """ ++ [128512]%N ++ runes_of_ascii """	] : chars 7 // " ++ [27880; 37322]%N ++ runes_of_ascii "
+:roots
+,} // " ++ [27880; 37322]%N ++ runes_of_ascii "
+,
+    string leftPad, } , @lengthOf( i8i8 )//	t
+@leftPad( '\x00'
+)repeat
+Packet
+`line1
+line2` ,
+    uint8  len	,@rightPad ( '\x00'
+    // a // b
+    ) char[ 4294967296 ] Logon  `doc`
+,
+    } MetaData msg_type { i16
+repeatCount
+    `doc`, u8x msg_type
+    , }
+")).
+Eval vm_compute in ("<<<M3655>>>" ++ check (runes_of_ascii "packet Foo {
+    @lengthOf(u128)
+    char[007] u128 `// not a comment`,
+    @calculatedFrom(""" ++ [233]%N ++ runes_of_ascii "t" ++ [233]%N ++ runes_of_ascii """)
+    char[4294967296] i8i8 @calculatedFrom(""" ++ [28040; 24687]%N ++ runes_of_ascii """),
+    zchar[1] repeatCount,
 }
-packet Fill {
-    uint16 Qty,
-    uint64 clOrdID,
-    repeat i64 Flags,
-}
-packet Ack {
-    zchar[7] clOrdID,
-    u64 lastPx,
-    char[] Note,
-    repeat Fill,
-    int32 count,
-}
-packet Quote {
-    u8 venue,
-    InRef40 {
-        char[] Qty,
-    },
-    zchar[5] Flags,
-    @rightPad('\x00') char[12] msgKind,
-}
-packet Logout {
-    InSym79 {
-        int32 Qty,
-        Fill,
-        char[3] x,
-        repeat InNote29 {
-            i16 price,
-            Ack,
-            f64 x,
-            zchar[8] count,
+
+packet body {
+    u32 A,
+    @lengthOf(trueish)
+    @lengthOf(u8x)
+    @rightPad('0')
+    Foo @calculatedFrom(""a	b""),
+    char[007] charz `" ++ [28040; 24687; 31867; 22411]%N ++ runes_of_ascii "`,
+    @lengthOf(int)
+    packetx @lengthOf(rootA) `u8 x,`,
+    @rightPad('\x00')
+    char[255] repeatCount `line1
+        line2`,
+    f32 trueish,
+    @leftPad(' ')
+    // `tick` ""quote"" 'q'
+    @lengthOf(MetaDataX)
+    @lengthOf(leftPad)
+    /// triple
+    Pad {
+        match Logon as i64_ {
+            [255, ""it's"", """ ++ [28040; 24687]%N ++ runes_of_ascii """, ""x y""] : pack,
+            [
+                10, ""a\""b"", ""x y"", ""\" ++ [233]%N ++ runes_of_ascii """, 0,
+                10, 0, 255
+            ] : charz,
+            0 : string_,
+            [""x y"", 1] : asx,
+            ""a	b"" : asx,
+            ""a	b"" : Header,
         },
     },
 }
-root packet Logon {
-    zchar[1] sym,
-    u32 count,
-    u16 tag7 @lengthOf(Body),
-    match count as Body {
-        [122, 152] : Ack,
-        118 : Logout,
-        61 : Quote,
-        161 : Fill,
-    },
-    u32 Acct @calculatedFrom(""CRC32""),
-}
-")).
-Eval vm_compute in ("<<<M1538>>>" ++ check (runes_of_ascii "// top
-options // c0
-{
-    // c1
-LittleEndian = true ;
-    // c5
-StringPrefixLenType // c6a
-  // c6b
-= // c7a
-  // c7b
-u8 // c8a
-  // c8b
-;
-    // c9
-ArrayPrefixLenType
-    // c10
-= // c11a
-  // c11b
-u8 // c12
-; } // c14a
-  // c14b
-packet
-    // c15
-Ack // c16a
-  // c16b
-{ // c17a
-  // c17b
-} // c18a
-  // c18b
-root // c19a
-  // c19b
-packet
-    // c20
-Quote // c21a
-  // c21b
-{ // c22
-Ack
-    // c23
-,
-    // c24
-InSym94
-    // c25
-{ // c26
-repeat // c27
-Ack , // c29
-} ,
-    // c31
-u16 msgKind // c33
-, u16 OrderId // c36a
-  // c36b
-@lengthOf(
-    // c37
-Body
-    // c38
-)
-    // c39
-,
-    // c40
-match msgKind as
-    // c43
-Body
-    // c44
-{ [ 110 // c47
-,
-    // c48
-48 // c49
-] // c50
-: Ack , } , } // c56a
-  // c56b
-")).
-Eval vm_compute in ("<<<M375>>>" ++ check (runes_of_ascii "packet zchar
-{BodyLength x // `tick` ""quote"" 'q'
-, // trailing space 
-@rightPad ('0' )
-match _x as x { [
-    """ ++ [128512]%N ++ runes_of_ascii """ ] : falsey  , 65535
-:  chars 0 : falsey , [ ""packet""
-    ] :// c
-metadata	0 : repeatCount,00//
-:  packetx ,
-} , } packet crc  { match body
-//x
-//x
-as len {
-7:
-    leftPad
-,007 : x_y_z , 00
-:
-    x_y_z, [ 0, 10 ,
-10 , //	t
-10	] :	calculatedFrom // packet A { u8 x, }
-, ""packet"" : calculatedFrom } , @leftPad ( '0' ) @tag(
-4294967296
-    ) match u128 // c
-as trueish
-{	3
-: i64_
-    ,
-    }, char[255
-]o @lengthOf(leftPad
-    )
-`u8 x,` , } MetaData o {float
-roots ,
-    x_y_z MetaDataX , packetx zchar
-    , }")).
-Eval vm_compute in ("<<<M310>>>" ++ check (runes_of_ascii "packet  T{ i8 MetaDataX	,
-    repeat x
-    {
-int32 lengthOf ,
-char[ 007 ]repeatCount
-`" ++ [233]%N ++ runes_of_ascii "`
-, string // " ++ [27880; 37322]%N ++ runes_of_ascii "
-Header @lengthOf(
-    len ),	}
-,	@rightPad (
-' '
-    ) @tag(	3  )
-@tag(
-00 ) char[ 00 ]rootA	, f64 string_ , @calculatedFrom( ""it's""
-// " ++ [27880; 37322]%N ++ runes_of_ascii "
-//
-) char[]falsey ``	,
-repeat
-    a1 {	i64_ u128 ,
-    zchar[
-4294967296 ]
-i8i8 ,
-Logon @lengthOf( packetx
-    // trailing space 
-    ) ,} , lengthOf float
-, @calculatedFrom( ""{,}""
-    ) u@lengthOf( rootA
-) `say ""hi""`
-//
-//x
-,	zchar[
-    //	t
-    10
-    ] metadata `` ,}
-options { } //	t")).
-Eval vm_compute in ("<<<M337>>>" ++ check (runes_of_ascii "options { }packet BodyLength {i8i8 @lengthOf(trueish ) , repeat body ,// " ++ [27880; 37322]%N ++ runes_of_ascii "
-@calculatedFrom( ""1"" )repeat int64 i64_ ,@tag(0 )
-    MetaDataX msg_type `" ++ [28040; 24687; 31867; 22411]%N ++ runes_of_ascii "`  , Pad { Header @calculatedFrom( """"), }, @tag(  42
-    ) u8 asx `u8 x,` , @tag( 3
-) repeat string_ {
-metadata
-{// @lengthOf(
-char[ 0123456789  ] crc, Packet
-    `" ++ [28040; 24687; 31867; 22411]%N ++ runes_of_ascii "` , //x
-options1
-    // " ++ [128512]%N ++ runes_of_ascii " emoji
-    `tab	here` // packet A { u8 x, }
-,
-}, repeat Packet , } , }
-    //x
-    options { x
-    =  char[ 10	] ; }")).
-Eval vm_compute in ("<<<M1524>>>" ++ check (runes_of_ascii "packet Frame {
-    u8 HK,
-    u8 BK,
-    u8 TK,
-    match HK as Hdr {
-        1 : HdrA,
-        2 : HdrB,
-    },
-    match BK as Body {
-        1 : BodyA,
-        2 : BodyB,
-    },
-    match TK as Trl {
-        1 : TrlA,
-    },
-}
-packet HdrA {
-    u8 a,
-}
-packet HdrB {
-    u16 b,
-}
-packet BodyA {
-    u32 c,
-}
-packet BodyB {
-    u64 d,
-}
-packet TrlA {
-    u8 e,
-}
-root packet Msg {
-    Frame,
-    u8 x,
-}
-")).
-Eval vm_compute in ("<<<M2092>>>" ++ check (runes_of_ascii "
-packet // " ++ [128512]%N ++ runes_of_ascii " emoji
-  	charz
 
-    {repeat
-
-options1
-	{ char
-x_y_z  
-      /// triple
-//x
-
-,
-	T {
-
-string_ @calculatedFrom( ""1""	), 
-}
-
-    ,	f64 
-crc
-    ,u64 
-A 
-    // trailing space 
-/// triple
-	@calculatedFrom(""CRC32""
-) , }	,
-} MetaData
-    MetaDataX	//	t
-	{ 
-}
-root 
-packet
-
-    u128{	string_ {repeat
-pack
-
-{  As
-matchKey ,
-}
-    ,
-} ,  }
-
-")).
-Eval vm_compute in ("<<<M338>>>" ++ check (runes_of_ascii "root packet // `tick` ""quote"" 'q'
-roots{@rightPad (// trailing space 
-'0'
-)char[255 ] T`line1
-line2`
-,}packet msg_type {	Logon { f64 x_y_z`` ,
-    },	i8 pack @lengthOf( stringy )
-, @tag(
-    4294967296)char[] msg_type ,
-stringy // a // b
-{ match x as
-    roots { 1 :
-options1 ,
-    ""it's"" : BodyLength , }, } , }
-")).
-Eval vm_compute in ("<<<M599>>>" ++ check (runes_of_ascii "root packet tag { }  packet MetaDataX{char[007	]
-// c
-/// triple
-asx  @calculatedFrom( ""a\""b""
-) `say ""hi""`// " ++ [27880; 37322]%N ++ runes_of_ascii "
-,  @tag(4294967296 )
-    char[1//x
-] packetx @calculatedFrom( @calculatedFrom(""a\""b""
-    ) ,
-// " ++ [128512]%N ++ runes_of_ascii " emoji
-// a // b
-@calculatedFrom(""" ++ [233]%N ++ runes_of_ascii "t" ++ [233]%N ++ runes_of_ascii """  ) repeat pack // " ++ [27880; 37322]%N ++ runes_of_ascii "
-,
-    } // c")).
-Eval vm_compute in ("<<<M217>>>" ++ check (runes_of_ascii "options{ // " ++ [128512]%N ++ runes_of_ascii " emoji
-x =i8 BodyLength	=	'\x00'	;
-options1 // a // b
-=// c
-zchar[
-    42] ; msg_type = ""a	b""  x_y_z =// a // b
-int64
-; } //x
-options
-{ pack =
-""a\\""matchKey  =
-    true Packet =""abc"" //	t
-falsey =
-'\x00'
-; }  root packet charz { body
-    `doc` , } // c")).
-Eval vm_compute in ("<<<M629>>>" ++ check (runes_of_ascii "root packet tag { }  packet MetaDataX{char[007	]
-// c
-/// triple
-asx  @calculatedFrom( ""a\""b""
-) `say ""hi""`// " ++ [27880; 37322]%N ++ runes_of_ascii "
-,  @tag(4294967296 )
-    char[1//x
-] packetx @calculatedFrom(""a\""b""
-    ) ,
-// " ++ [128512]%N ++ runes_of_ascii " emoji
-// a // b
-@calculatedFrom(""" ++ [233]%N ++ runes_of_ascii "t" ++ [233]%N ++ runes_of_ascii """  ) ) repeat pack // " ++ [27880; 37322]%N ++ runes_of_ascii "
-,
-    } // c")).
-Eval vm_compute in ("<<<M485>>>" ++ check (runes_of_ascii "root tag packet { }  packet MetaDataX{char[007	]
-// c
-/// triple
-asx  @calculatedFrom( ""a\""b""
-) `say ""hi""`// " ++ [27880; 37322]%N ++ runes_of_ascii "
-,  @tag(4294967296 )
-    char[1//x
-] packetx @calculatedFrom(""a\""b""
-    ) ,
-// " ++ [128512]%N ++ runes_of_ascii " emoji
-// a // b
-@calculatedFrom(""" ++ [233]%N ++ runes_of_ascii "t" ++ [233]%N ++ runes_of_ascii """  ) repeat pack // " ++ [27880; 37322]%N ++ runes_of_ascii "
-,
-    } // c")).
-Eval vm_compute in ("<<<M672>>>" ++ check (runes_of_ascii "root packet a" ++ [769]%N ++ runes_of_ascii "b { }  packet MetaDataX{char[007	]
-// c
-/// triple
-asx  @calculatedFrom( ""a\""b""
-) `say ""hi""`// " ++ [27880; 37322]%N ++ runes_of_ascii "
-,  @tag(4294967296 )
-    char[1//x
-] packetx @calculatedFrom(""a\""b""
-    ) ,
-// " ++ [128512]%N ++ runes_of_ascii " emoji
-// a // b
-@calculatedFrom(""" ++ [233]%N ++ runes_of_ascii "t" ++ [233]%N ++ runes_of_ascii """  ) repeat pack // " ++ [27880; 37322]%N ++ runes_of_ascii "
-,
-    } // c")).
-Eval vm_compute in ("<<<M566>>>" ++ check (runes_of_ascii "root packet tag { }  packet MetaDataX{char[007	]
-// c
-/// triple
-asx  @calculatedFrom( ""a\""b""
-) `say ""hi""`// " ++ [27880; 37322]%N ++ runes_of_ascii "
-,  ,4294967296 )
-    char[1//x
-] packetx @calculatedFrom(""a\""b""
-    ) ,
-// " ++ [128512]%N ++ runes_of_ascii " emoji
-// a // b
-@calculatedFrom(""" ++ [233]%N ++ runes_of_ascii "t" ++ [233]%N ++ runes_of_ascii """  ) repeat pack // " ++ [27880; 37322]%N ++ runes_of_ascii "
-,
-    } // c")).
-Eval vm_compute in ("<<<M1576>>>" ++ check (runes_of_ascii "options {
-    LittleEndian = true;
-}
-packet Logon {
-    u8 x,
-    string user,
-}
-packet Logout {
-    u16 reason,
-}
-packet Empty {
-}
-root packet Frame {
-    u16 MsgType,
-    u16 BodyLen @lengthOf(Body),
-    u8 flags,
-    Logon Body,
-    u32 trailer,
-}
-")).
-Eval vm_compute in ("<<<M1590>>>" ++ check (runes_of_ascii "packet Foo {
-    match i64_ as x_y_z {
-        65535 : BodyLength,
-        [3, ""CRC32""] : u,
-        255 : T,
-        [""x y""] : leftPad,
-        0123456789 : As,
-    },
-    zchar[1] int,
-}
-
-packet float {
-    uint16 Packet,
-}")).
-Eval vm_compute in ("<<<M124>>>" ++ check (runes_of_ascii "
-root packet crc{ u16	Z9_ `tab	here`,
-repeat rootA,
-    // trailing space 
-    }
-packet leftPad	{ @rightPad( )
-    @tag(  0 // a // b
-)repeat	i16 As `doc` , } MetaData  body // a // b
-{x f32a,  }
-// c
-")).
-Eval vm_compute in ("<<<M1518>>>" ++ check (runes_of_ascii "root packet Frame {
-    u8 K,
-    Logon first,
-    match K as Body {
-        1 : Logon,
-        2 : Logout,
-    },
-}
-packet Logon {
-    string user,
-}
-packet Logout {
-    u16 reason,
-}
-")).
-Eval vm_compute in ("<<<M1886>>>" ++ check (runes_of_ascii "
 packet A {
-	match  k 
-as
-
-n	{  [	""a"",
-
-    ""bb""
-
-    ,
-""c c""
-
-    ,
-
-    ""d""
-,  ""e"" 
-, ""f"" , 
-""g"" ,
-""h""
-,""i""
-
-    , ""j"" 
-,
-""k""
-
-    ] :
-	B
-, 
-2
-:
-	C} ,
 }
-")).
-Eval vm_compute in ("<<<M468>>>" ++ check (runes_of_ascii "packet
-    // `tick` ""quote"" 'q'
-    crc
-// packet A { u8 x, }
-//	t
-$ {
-u32 a1 ,
-    // trailing space 
-    roots
-charz //
-`two words`,	}
-    MetaData int {
-} /// triple")).
-Eval vm_compute in ("<<<M431>>>" ++ check (runes_of_ascii "packet
-    // `tick` ""quote"" 'q'
-    crc
-// packet A { u8 x, }
-//	t
-{
-u32 a1 ,
-    // trailing space 
-    roots
-charz //
-`two words`}	,
-    MetaData int {
-} /// triple")).
-Eval vm_compute in ("<<<M710>>>" ++ check (runes_of_ascii "root packet len // trailing space 
-{
-// " ++ [27880; 37322]%N ++ runes_of_ascii "
-//	t
-char[10
-] metadata	@lengthOf( o ) `crlf
-line`,
-    @rightPad
-( ' '
-) string
-    Header @calculatedFrom( ""a\\""
-    ), }")).
-Eval vm_compute in ("<<<M1467>>>" ++ check (runes_of_ascii "
+
 options {
-	LittleEndian
+    len = true;
+    f32a = '0'
+    o = char[7];
+    body = ' '
+    o = 3
+}
 
-    =true ;}  packet
-    B
-	{u8
-	a
-,string
-
-    s  , }
-root
-
-    packet
-
-    P
-	{ u16
-L@lengthOf(
-B )
-
-    , B , u8 t  , 
-}")).
-Eval vm_compute in ("<<<M2014>>>" ++ check (runes_of_ascii "root packet len {
-    // " ++ [27880; 37322]%N ++ runes_of_ascii "
-    //	t
-    char[10] metadata @lengthOf(o) `crlf
-    " ++ [8232]%N ++ runes_of_ascii "line`,
+packet As {
+    @tag(007)
+    @rightPad('\x00')
     @rightPad(' ')
-    string Header @calculatedFrom(""a\\""),
+    match roots as _x {
+        0123456789 : string_,
+        [
+            """ ++ [28040; 24687]%N ++ runes_of_ascii """, ""1"", ""a	b"", 3, ""x y"",
+            00, 10, ""\" ++ [233]%N ++ runes_of_ascii """
+        ] : Pad,
+        65535 : x,
+        7 : x_y_z,
+        3 : charz,
+    },
+    @rightPad(' ')
+    repeat f64 u128,
+    i8 calculatedFrom @calculatedFrom(""it's""),
+    @tag(0)
+    repeat zchar[65535] lengthOf `" ++ [233]%N ++ runes_of_ascii "`,
+    asx {
+        msg_type f32a `a\`,
+    },
+    @lengthOf(A)
+    @rightPad()
+    @calculatedFrom(""packet"")
+    char Logon @calculatedFrom(""" ++ [128512]%N ++ runes_of_ascii """),
+    @lengthOf(f32a)
+    zchar[1] i8i8 `it's`,//	t
+    u16 As @calculatedFrom(""packet"") `
+        `,
 }")).
-Eval vm_compute in ("<<<M1907>>>" ++ check (runes_of_ascii "root
-
-    packet 
-matchKey 
-{
-	zchar[  3 ]pack
-	@calculatedFrom(// c
-
-	""a	b"")  `doc` ,
-	}
-
-    options{ }MetaData
-A
-{
-int8
-	msg_type , }
-")).
-Eval vm_compute in ("<<<M695>>>" ++ check (runes_of_ascii "root packet len // trailing space 
-{
-// " ++ [27880; 37322]%N ++ runes_of_ascii "
-//	t
-char[10
-] metadata	@lengthOf( o ) `crlf
-line`,
-    @rightPad
-( ' '
-) string
-    Head")).
-Eval vm_compute in ("<<<M1920>>>" ++ check (runes_of_ascii "packet rootA {
-}
-
+Eval vm_compute in ("<<<M1080>>>" ++ check (runes_of_ascii "root packet charz { @calculatedFrom( """ ++ [233]%N ++ runes_of_ascii "t" ++ [233]%N ++ runes_of_ascii """ )Foo
+    x `u8 x,` ,
+    rootA @lengthOf(leftPad) , zchar[
+0123456789 ]	MetaDataX
+    `" ++ [28040; 24687; 31867; 22411]%N ++ runes_of_ascii "`,
+@tag(7 )packetx
+    // trailing space 
+    @calculatedFrom( ""CRC32""
+) `it's`
+,	@lengthOf(falsey ) repeat zchar[ 4294967296
+]
+    string_ ,@lengthOf( options1  ) int
+{ int64
+//x
+// 50% %s
+u
+@calculatedFrom( ""1""
+) `line1
+line2`
+    ,	repeat zchar[  00 /// triple
+]falsey , char[]	stringy @calculatedFrom( ""it's"" )// @lengthOf(
+`crlf
+line`	, // a // b
+i16 A , } ,@calculatedFrom(
+""`tick`"" )f64 BodyLength @lengthOf( /// triple
+len	)  `crlf
+line`
+    , } MetaData msg_type{uint64
+// trailing space 
+// a // b
+roots `100% of %d`
+, } options { packetx= true
+    }MetaData uint8x{}root packet
+// trailing space 
+//
+crc { // trailing space 
+char[
 // `tick` ""quote"" 'q'
+// " ++ [27880; 37322]%N ++ runes_of_ascii "
+4294967296
+    ]i64_ , @leftPad ( '0'
+) @lengthOf(
+    msg_type) repeat Foo`line1
+line2` ,
+asx i64_ //	t
+`two words` ,@tag( 7
+    ) Packet , repeat // c
+i64 u8x`say ""hi""`
+    ,zchar[ 7 ] x_y_z ,// `tick` ""quote"" 'q'
+match Foo as
+    Pad { // c
+[""abc"" ,
+""""
+    ]:options1 ,
+""a	b"":	crc , 42:rootA
+, // " ++ [128512]%N ++ runes_of_ascii " emoji
+}// " ++ [128512]%N ++ runes_of_ascii " emoji
+,	@lengthOf( // trailing space 
+Header)body int// 50% %s
+, @tag(
+1 )@calculatedFrom(""" ++ [233]%N ++ runes_of_ascii "t" ++ [233]%N ++ runes_of_ascii """ ) char[
+255 ]
+    // 50% %s
+    charz	@lengthOf( A ) , /// triple
+uint64
+// @lengthOf(
 /// triple
-options {
-    stringy = 0123456789;
-    T = 42;
-    string_ = ""a\""b"";
+Packet
+@calculatedFrom( ""1"")`100% of %d`
+,}")).
+Eval vm_compute in ("<<<M634>>>" ++ check (runes_of_ascii "root
+    // " ++ [27880; 37322]%N ++ runes_of_ascii "
+    packet string_
+    { repeat uint16
+    Logon
+`
+` , @calculatedFrom(""" ++ [233]%N ++ runes_of_ascii "t" ++ [233]%N ++ runes_of_ascii """ ) char[255 ]Logon , u64 pack
+@calculatedFrom( ""a\\"") ,@rightPad// 50% %s
+( // `tick` ""quote"" 'q'
+'0' )T
+{ zchar[
+    3
+    ]
+u8x@calculatedFrom( ""CRC32"" )
+    `crlf
+line`
+    ,o
+    { _x
+{	float32
+    calculatedFrom/// triple
+, } ,  repeat int64 u128 ,	float32  string_
+    @lengthOf(	msg_type )
+`" ++ [233]%N ++ runes_of_ascii "`,	}
+, }
+, i16 charz `line1
+line2`
+,  repeat int64 a1  ,@lengthOf( // 50% %s
+lengthOf)
+    // " ++ [27880; 37322]%N ++ runes_of_ascii "
+    @tag(
+00 ) Header body	`" ++ [28040; 24687; 31867; 22411]%N ++ runes_of_ascii "`,@tag( // a // b
+65535 )  match pack as
+_x{ ""abc""  : charz
+    , 255 // c
+: T
+,
+[	""1"" ,007 ]
+    :
+rootA ,00	:
+    i64_ } , char[] a1
+`" ++ [233]%N ++ runes_of_ascii "`, matchKey { zchar[ 3
+]  Pad //
+`// not a comment`  ,
+    }, }
+options{packetx =' 'A =
+0123456789;
+string_
+    = '\x00'
+    ; float=""a\""b""  ; tag =
+65535
+    } root packet matchKey	{  @calculatedFrom( ""\n"" /// triple
+) zchar crc
+`100% of %d`
+, repeat	x{char[] options1`two words` ,repeat
+    // packet A { u8 x, }
+    metadata {  options1 @calculatedFrom( ""CRC32"" ) , }, uint64 matchKey `" ++ [28040; 24687; 31867; 22411]%N ++ runes_of_ascii "` , leftPad,} , repeat i64  _x
+`{ , }` ,@tag( 1 ) char[ 255] len  ,
+}  root
+packet charz	{ float64 body@lengthOf( falsey ) , zchar
+    repeatCount , } root packet asx  {
+//x
+// 50% %s
+}")).
+Eval vm_compute in ("<<<M3448>>>" ++ check (runes_of_ascii "// top
+packet // c0a
+  // c0b
+NewOrder { u32
+    // c3
+qty // c4a
+  // c4b
+, // c5a
+  // c5b
+} // c6
+packet Cancel { // c9a
+  // c9b
+u64 // c10
+id // c11a
+  // c11b
+,
+    // c12
 }
-//")).
-Eval vm_compute in ("<<<M1237>>>" ++ check (runes_of_ascii "root packet matchKey { zchar[ 3 ] pack // c
-@calculatedFrom( ""a	b"" ) `doc` , } options { } MetaData A { int8 msg_type , }")).
-Eval vm_compute in ("<<<M1453>>>" ++ check (runes_of_ascii "packet B {
-    u8 a,
+    // c13
+packet
+    // c14
+Business // c15
+{ // c16
+u8 // c17
+Kind // c18a
+  // c18b
+,
+    // c19
+match // c20a
+  // c20b
+Kind // c21a
+  // c21b
+as Detail // c23
+{ 1 // c25
+: // c26a
+  // c26b
+NewOrder , // c28
+2 // c29a
+  // c29b
+: Cancel
+    // c31
+, // c32a
+  // c32b
+} // c33a
+  // c33b
+,
+    // c34
+} // c35a
+  // c35b
+packet TcpFrame // c37a
+  // c37b
+{ // c38
+u8
+    // c39
+T ,
+    // c41
+match
+    // c42
+T // c43
+as // c44a
+  // c44b
+Body // c45a
+  // c45b
+{ 1 // c47a
+  // c47b
+:
+    // c48
+Business // c49
+, // c50
+} // c51
+, // c52
+} packet // c54a
+  // c54b
+UdpFrame // c55
+{
+    // c56
+u8
+    // c57
+U , match // c60a
+  // c60b
+U as // c62a
+  // c62b
+Body {
+    // c64
+1 // c65
+:
+    // c66
+Business , } // c69a
+  // c69b
+, // c70a
+  // c70b
+Business // c71
+extra // c72a
+  // c72b
+, // c73a
+  // c73b
 }
-root packet P {
-    u8 K,
-    u8 L @lengthOf(Body),
-    match K as Body {
-        1 : B,
-    },
+    // c74
+root
+    // c75
+packet
+    // c76
+Wire
+    // c77
+{ // c78a
+  // c78b
+TcpFrame // c79a
+  // c79b
+, UdpFrame // c81
+,
+    // c82
+} // c83a
+  // c83b
+")).
+Eval vm_compute in ("<<<M528>>>" ++ check (runes_of_ascii "
+packet
+    //x
+    BodyLength
+    {@lengthOf(
+As
+    )  @rightPad ()@lengthOf( len )uint8 leftPad , u	{	match
+body as Header { // c
+[	4294967296 // c
+,
+7 ,""abc"" , 1 ]
+:
+    // a // b
+    stringy , }
+    , char[ 0 ] /// triple
+leftPad @lengthOf( i8i8 )	,  u64 // 50% %s
+charz
+    , repeat uint16
+    a1  ,
+    // @lengthOf(
+    } // packet A { u8 x, }
+,
+zchar[ //x
+0123456789
+    ]BodyLength @calculatedFrom( ""{,}""
+    ) //
+,
+BodyLength`{ , }` ,
+}packet u8x
+    { repeat len
+    //x
+    {
+    u32
+    //
+    f32a `" ++ [28040; 24687; 31867; 22411]%N ++ runes_of_ascii "` ,	A ,i64 matchKey , }  , }
+MetaData	_x{ } packet _x {
+f32a
+    {
+f32 body // a // b
+, uint16 u128, matchKey @lengthOf(Packet ) , }	, repeat zchar[ 0123456789
+    ]
+float
+`" ++ [233]%N ++ runes_of_ascii "` ,
+f32 i8i8 `doc` ,
+    repeat string_ , A
+    // packet A { u8 x, }
+    `
+`
+// a // b
+/// triple
+, match u128 as i8i8 // @lengthOf(
+{
+0123456789 :float ,  10  : roots // " ++ [128512]%N ++ runes_of_ascii " emoji
+,
+    ""it's"" : _x
+    , 10 :
+// packet A { u8 x, }
+//	t
+Z9_ [
+    /// triple
+    ""a\""b"",
+""x y"" ]
+    : matchKey, [""\" ++ [233]%N ++ runes_of_ascii """, 10 ,""" ++ [28040; 24687]%N ++ runes_of_ascii """ , 255
+, 0123456789
+,
+// a // b
+// `tick` ""quote"" 'q'
+7  , 007 ] :
+    Pad } , }
+
+")).
+Eval vm_compute in ("<<<M1>>>" ++ check (runes_of_ascii "// `tick` ""quote"" 'q'
+packet a1 // " ++ [27880; 37322]%N ++ runes_of_ascii "
+{ @calculatedFrom( ""abc"" )chars `" ++ [28040; 24687; 31867; 22411]%N ++ runes_of_ascii "` ,	match
+    crc as
+    metadata{ 65535 :
+trueish ""\" ++ [233]%N ++ runes_of_ascii """
+: charz
+    // " ++ [27880; 37322]%N ++ runes_of_ascii "
+    ,""abc""
+: MetaDataX [ ""packet"" ,
+    ""// no comment""
+    // `tick` ""quote"" 'q'
+    , 0 , 00
+    // a // b
+    , ""// no comment"" ,""{,}""
+    // " ++ [128512]%N ++ runes_of_ascii " emoji
+    , 00 ] : i64_ , """ ++ [233]%N ++ runes_of_ascii "t" ++ [233]%N ++ runes_of_ascii """	: f32a
+    , [""" ++ [128512]%N ++ runes_of_ascii """ , ""it's"" // `tick` ""quote"" 'q'
+] :
+    Foo}// `tick` ""quote"" 'q'
+, @rightPad(	' ' ) repeat	char[ 1 ]
+body
+    `" ++ [28040; 24687; 31867; 22411]%N ++ runes_of_ascii "` , @calculatedFrom(
+    """ ++ [233]%N ++ runes_of_ascii "t" ++ [233]%N ++ runes_of_ascii """ ) repeat
+options1 i64_
+    , match roots
+as T { [
+0 ,
+""x y""	]: uint8x ,""" ++ [128512]%N ++ runes_of_ascii """
+    :
+    packetx	""packet"":
+uint8x,// packet A { u8 x, }
+""a	b"" :lengthOf ,
+4294967296 :
+    repeatCount
+, } , string options1@calculatedFrom( ""x y""	) ,int
+    ,
+    // c
+    o @calculatedFrom( ""packet"" ) `say ""hi""` ,	int a1 ,string_ { char[]Logon`say ""hi""`
+, repeat
+float32
+    trueish ,} , } options{  BodyLength
+// @lengthOf(
+//	t
+= '0' ;body
+= true
+    ;  i8i8 =
+""packet""
+} packet
+zchar
+    {u16
+Logon  `a\`
+    /// triple
+    , } packet u128{
+    }
+")).
+Eval vm_compute in ("<<<M3781>>>" ++ check (runes_of_ascii "root packet string_
+
+{
+	@lengthOf(
+falsey
+
+    )
+@tag(  // @lengthOf(
+  	42
+) match
+
+repeatCount
+as
+Z9_
+    {
+
+    ""{,}"" :
+
+    roots // 50% %s
+  , 
+255:As
+,[	65535
+    ,
+
+    0 ] : 
+    // a // b
+    T }
+    , 
+    /// triple
+  repeat
+    i8 repeatCount `" ++ [28040; 24687; 31867; 22411]%N ++ runes_of_ascii "`,
+
+    } options {
+
+As
+	=	zchar[ 255
+] ;}
+    // trailing space 
+  packet 	 // trailing space 
+	  leftPad
+{
+    @lengthOf( 
+lengthOf
+	)
+
+Foo	{ x msg_type
+,msg_type /// triple
+	`it's`
+
+    , u16	crc
+    @lengthOf( 
+f32a	)
+    `
+` ,  } // trailing space 
+	,
+	u
+
+stringy	,
+
+    packetx`u8 x,`,
+
+@leftPad
+    (
+	)
+    @calculatedFrom(
+    ""abc""
+	)@tag(
+65535  ) BodyLength{ 
+zchar[
+    1 ]
+    Logon
+    ,
+
+    },match As  as matchKey
+
+{ 42 : // `tick` ""quote"" 'q'
+	  Z9_
+    , //	t
+  [
+""it's""
+
+]
+// trailing space 
+  :  calculatedFrom 255
+	: roots ,
+
+    ""abc"" :
+
+u8x ,
+	"""":
+
+    i8i8
+
+4294967296 : packetx ,
+
+    } ,
+
+    }
+
+    root packet  A  {
+char[
+    10  ]
+x_y_z
+    , 
+}")).
+Eval vm_compute in ("<<<M391>>>" ++ check (runes_of_ascii "packet tag {
+// a // b
+// " ++ [27880; 37322]%N ++ runes_of_ascii "
+u64	body @calculatedFrom(""x y"" ) `crlf
+line` ,}
+    root  packet As  {
+    @tag(
+4294967296 )  i8 int ,  f64  u128
+@lengthOf(
+packetx ), @calculatedFrom(
+""" ++ [233]%N ++ runes_of_ascii "t" ++ [233]%N ++ runes_of_ascii """ )@tag( 0
+    )
+@lengthOf( falsey)
+    lengthOf { uint32 f32a// 50% %s
+,repeat roots //
+{ char MetaDataX  ,
+    i32 pack ,string metadata
+    // 50% %s
+    , } , }  , int8 T
+,
+/// triple
+// c
+@tag(
+007
+) @lengthOf( metadata ) repeat uint8x { char[]
+As`" ++ [28040; 24687; 31867; 22411]%N ++ runes_of_ascii "` //
+,match Logon as calculatedFrom
+{
+    [4294967296
+    ] : metadata
+""1"" : len
+    0 : Logon ,
+    ""x y""
+:
+    // trailing space 
+    stringy
+    ,
+    ""it's""  : falsey // trailing space 
+, ""1"" : string_
+    , } ,//
+Foo
+    MetaDataX`crlf
+line`,	} ,
+    @rightPad ( ) float32 tag // c
+@lengthOf( charz) ,
+char[ 255// packet A { u8 x, }
+]
+    x_y_z
+    , @calculatedFrom( // a // b
+""it's""// @lengthOf(
+)
+    // " ++ [27880; 37322]%N ++ runes_of_ascii "
+    x_y_z, } options{msg_type
+    // " ++ [128512]%N ++ runes_of_ascii " emoji
+    =
+'0' ;
 }
 ")).
-Eval vm_compute in ("<<<M956>>>" ++ check (runes_of_ascii "packet A {
-    u16 len @lengthOf(body) `tab
-	x`,
-    u32 crc @calculatedFrom(""CRC32"") `tab
-	x`,
-    string body,
-}")).
-Eval vm_compute in ("<<<M1860>>>" ++ check (runes_of_ascii "options {
-    LittleEndian = true;
-}
-
-root packet P {
-    u16 a,
-    u32 Sum @calculatedFrom(""CR\
-    C32""),
-}")).
-Eval vm_compute in ("<<<M950>>>" ++ check (runes_of_ascii "packet A {
-    u16 len @lengthOf(body) `
-x`,
-    u32 crc @calculatedFrom(""CRC32"") `
-x`,
-    string body,
-}")).
-Eval vm_compute in ("<<<M908>>>" ++ check (runes_of_ascii "packet A {
-  match k as n {
-    [1, 22, ""c c"", 4, 5, ""f"", 7, 8, ""i"", 10, 11, ""l""] : B
-    2 : C
-  },
-}")).
-Eval vm_compute in ("<<<M1748>>>" ++ check (runes_of_ascii "
-MetaData body
-{ i64 
+Eval vm_compute in ("<<<M138>>>" ++ check (runes_of_ascii "packet
+//
+// " ++ [128512]%N ++ runes_of_ascii " emoji
+asx{ @leftPad ('\x00' )@calculatedFrom( ""{,}"" ) //
 pack
-`it's`
-
-, 
-} 
-	// c
-    	packet stringy
-
-{ int16
-
-calculatedFrom 
-,	}")).
-Eval vm_compute in ("<<<M867>>>" ++ check (runes_of_ascii "packet A {
-  match k as n {
-    [""a"", 22, ""c c"", 4, ""e"", 66, ""g"", 8, ""i""] : B
-    2 : C
-  },
-}")).
-Eval vm_compute in ("<<<M1217>>>" ++ check (runes_of_ascii "MetaData float { float64 charz `
-` , } root packet chars { @rightPad ( '0' ) Foo , }
-// c
-")).
-Eval vm_compute in ("<<<M1196>>>" ++ check (runes_of_ascii "MetaData float { float64 charz `
-` , } root // c
-packet chars { @rightPad ( '0' ) Foo , }")).
-Eval vm_compute in ("<<<M1407>>>" ++ check (runes_of_ascii "packet chars { } packet MetaDataX
-// c
-{ @tag( 42 ) i16 string_ , repeat x `say ""hi""` , }")).
-Eval vm_compute in ("<<<M1880>>>" ++ check (runes_of_ascii "packet A {
-    match k as n {
-        [""a"", ""bb"", 007, ""d""] : B,
-        2 : C,
-    },
-}")).
-Eval vm_compute in ("<<<M1137>>>" ++ check (runes_of_ascii "packet metadata { Logon { A `" ++ [28040; 24687; 31867; 22411]%N ++ runes_of_ascii "`
-// c
-, tag o , } , zchar len `// not a comment` , }")).
-Eval vm_compute in ("<<<M1342>>>" ++ check (runes_of_ascii "packet o // c
-{ repeat Logon uint8x , } options { asx = zchar[ 3 ] stringy = '\x00' }")).
-Eval vm_compute in ("<<<M1374>>>" ++ check (runes_of_ascii "packet o { repeat Logon uint8x , } options { asx = zchar[ 3 ] stringy = '\x00' // c
-}")).
-Eval vm_compute in ("<<<M847>>>" ++ check (runes_of_ascii "packet A {
-  match k as n {
-    [1, 22, 007, 4, 5, 66, 7, 8] : B,
-    2 : C
-  },
-}")).
-Eval vm_compute in ("<<<M1623>>>" ++ check (runes_of_ascii "
-packet  A
-{ match k	as
-
-n
-
-    { 
-[	1,  22
-,007 , 4]	:
-    B
+// " ++ [128512]%N ++ runes_of_ascii " emoji
+// " ++ [128512]%N ++ runes_of_ascii " emoji
+x_y_z , Pad f32a//x
+,  repeat	zchar[/// triple
+42 /// triple
+]
+// packet A { u8 x, }
+// " ++ [128512]%N ++ runes_of_ascii " emoji
+chars `{ , }`
+, string packetx `
+`	,
+@tag( 10
+) metadata@calculatedFrom( ""x y"" )
+, uint8x //	t
+,repeat int16
+    // `tick` ""quote"" 'q'
+    pack `a\`
+    , float64 rootA// c
 ,
-
-2
-	:
-C  },}
-")).
-Eval vm_compute in ("<<<M830>>>" ++ check (runes_of_ascii "packet A {
-  match k as n {
-    [1, 22, ""c c"", 4, 5, ""f""] : B
-    2 : C
-  },
-}")).
-Eval vm_compute in ("<<<M755>>>" ++ check (runes_of_ascii "; i8 ) @leftPad [ ' ' false { @lengthOf( zchar[ i64 ""\n"" string MetaData")).
-Eval vm_compute in ("<<<M786>>>" ++ check (runes_of_ascii "packet A {
-  match k as n {
-    [1, ""bb"", 007] : B,
-    2 : C
-  },
-}")).
-Eval vm_compute in ("<<<M777>>>" ++ check (runes_of_ascii "packet A {
-  match k as n {
-    [1, ""bb""] : B,
-    2 : C
-  },
-}")).
-Eval vm_compute in ("<<<M1275>>>" ++ check (runes_of_ascii "
-// c
-packet x { @rightPad ( ) repeat roots Logon `doc` , }")).
-Eval vm_compute in ("<<<M1295>>>" ++ check (runes_of_ascii "packet x { @rightPad ( ) repeat roots Logon `doc`
-// c
-, }")).
-Eval vm_compute in ("<<<M45>>>" ++ check (runes_of_ascii "
-MetaData int	{ string f32a//	t
-`two words`
-, } //")).
-Eval vm_compute in ("<<<M1676>>>" ++ check (runes_of_ascii "
-MetaData 
-M{
-u8 x`a
-
-b`
-, T
-
-t
-`a
-
-b`
+    /// triple
+    } packet
+// trailing space 
+// a // b
+asx//	t
+{ string_,	}root
+packet Header {
+float64 x_y_z
+    // packet A { u8 x, }
+    @calculatedFrom( ""x y""
+),
+//
+//x
+@calculatedFrom(
+""a\""b""
+) @calculatedFrom( // a // b
+""a\""b"" )
+int { zchar[ 255 ]
+    msg_type, i64_	{ stringy @lengthOf( x_y_z ) // " ++ [27880; 37322]%N ++ runes_of_ascii "
+, u
+options1`" ++ [233]%N ++ runes_of_ascii "`, repeat	f32 msg_type , float32 // trailing space 
+Foo  `two words`
+,	} , }// 50% %s
+,	uint8 asx `line1
+line2` , } MetaData
+lengthOf { char[] o `line1
+line2`
 ,
 }
 ")).
-Eval vm_compute in ("<<<M1061>>>" ++ check (runes_of_ascii "packet A {
-    u8 x,    // c    u8 y,
+Eval vm_compute in ("<<<M1084>>>" ++ check (runes_of_ascii "
+packet msg_type {
+    //
+    i8 _x	`{ , }` ,i8 Foo , @calculatedFrom( ""// no comment"")Z9_`it's` //
+,@lengthOf(BodyLength )repeat trueish, @lengthOf( Logon )
+zchar[
+00 ]
+float `{ , }`,}
+    options { pack =true } packet falsey
+    { @lengthOf(	asx ) A chars ,
+    body
+    // @lengthOf(
+    , repeat
+    // " ++ [128512]%N ++ runes_of_ascii " emoji
+    string_ { repeat  len { char[ 1  ] packetx //
+@lengthOf( // @lengthOf(
+i8i8 ) , }
+    ,	repeat string_ packetx, }	, u16
+Logon
+    @calculatedFrom(""a	b"" ) ,  repeat  i16 Logon ,
+// packet A { u8 x, }
+/// triple
+match Packet // c
+as matchKey {
+65535 : u
+, // c
+65535
+    : MetaDataX
+, } , @calculatedFrom( // @lengthOf(
+""a\\""
+    )
+repeat zchar[ 255 ]
+    stringy ,} packet
+matchKey{ @lengthOf(	charz) repeat string leftPad , } options  { Packet = '\x00'
+// `tick` ""quote"" 'q'
+// `tick` ""quote"" 'q'
+}
+// c
+")).
+Eval vm_compute in ("<<<M1174>>>" ++ check (runes_of_ascii "// a // b
+options { falsey
+    =
+true;
+    } MetaData body{ string msg_type	`crlf
+line`, string int	, As
+    u8x ,metadata o , }packet Z9_ // " ++ [128512]%N ++ runes_of_ascii " emoji
+{ @lengthOf(
+Logon // `tick` ""quote"" 'q'
+)
+@rightPad
+( '\x00')
+// a // b
+// trailing space 
+@calculatedFrom( """ ++ [233]%N ++ runes_of_ascii "t" ++ [233]%N ++ runes_of_ascii """)  zchar[ 3 // a // b
+] rootA,//
+}// " ++ [27880; 37322]%N ++ runes_of_ascii "
+packet zchar { repeat uint8 u128 `it's` ,} packet i8i8{ repeat leftPad
+{  T{// " ++ [128512]%N ++ runes_of_ascii " emoji
+int32 pack@calculatedFrom(""// no comment""	) , }
+    /// triple
+    , //x
+} , match x  as i8i8{ ""\" ++ [233]%N ++ runes_of_ascii """ : i64_ ,
+    // 50% %s
+    } ,
+    //
+    int8 matchKey
+    @lengthOf( charz ) , @lengthOf(	rootA
+) uint32
+lengthOf
+    // " ++ [128512]%N ++ runes_of_ascii " emoji
+    ,@tag(10 ) lengthOf @calculatedFrom( ""1""  )  ,
+    match len as Z9_ { [
+    ""1"" ]
+    // " ++ [128512]%N ++ runes_of_ascii " emoji
+    :stringy
+, 42// @lengthOf(
+: A ,} ,
+} // trailing space ")).
+Eval vm_compute in ("<<<M3967>>>" ++ check (runes_of_ascii "packet msg_type {
+    match x_y_z as i8i8 {
+        0 : As,
+        ""packet"" : T,
+        [
+            65535, ""1"", 00, """ ++ [128512]%N ++ runes_of_ascii """, 4294967296,
+            4294967296
+        ] : Logon,
+        [
+            ""\n"", ""packet"", ""// no comment"", 1, 1,
+            ""`tick`""
+        ] : rootA,
+        0123456789 : falsey,
+    },
+    As o,
+    char[0] float `// not a comment`,
+    @calculatedFrom(""abc"")
+    @tag(4294967296)
+    repeat float32 BodyLength `crlf
+    line`,
+    msg_type @calculatedFrom(""" ++ [128512]%N ++ runes_of_ascii """) `a\`,
+    repeat int64 body,
+    int16 a1 @calculatedFrom(""it's""),
+    i16 float `u8 x,`,
+    @leftPad('\x00')
+    // c
+    uint32 roots,
+}
+
+packet Header {
+    @calculatedFrom(""`tick`"")
+    char[00] packetx,
+    @lengthOf(matchKey)
+    repeatCount x_y_z `{ , }`,
 }")).
-Eval vm_compute in ("<<<M1919>>>" ++ check (runes_of_ascii "
+Eval vm_compute in ("<<<M4006>>>" ++ check (runes_of_ascii "root packet tag {
+    T {
+        //	t
+        //
+        zchar[4294967296] calculatedFrom,
+        repeat charz {
+            repeat i64_ stringy,
+            falsey,
+        },
+    },
+    @tag(65535)
+    @lengthOf(options1)
+    repeat string packetx `say ""hi""`,
+    match Header as charz {
+        65535 : pack,
+    },
+    i32 trueish @calculatedFrom(""it's"") `u8 x,`,
+    // c
+    @calculatedFrom(""x y"")
+    string len @lengthOf(metadata),
+    zchar[255] i64_ @lengthOf(A),
+    @lengthOf(float)
+    pack @calculatedFrom(""""),
+    rootA {
+        repeat i64 As,
+        u8 Foo,
+        char[00] trueish ``,
+        match string_ as calculatedFrom {
+            255 : T,
+        },
+    },
+    repeat len `doc`,
+    char[3] pack `a\`,
+}")).
+Eval vm_compute in ("<<<M538>>>" ++ check (runes_of_ascii "root packet Packet { u128 x_y_z,	zchar[007]
+    i64_	@lengthOf( Pad
+) `a\` , // 50% %s
+uint8 charz	,@lengthOf(
+i8i8 )zchar
+,@rightPad() //x
+zchar[ 65535] i64_@lengthOf(  metadata )
+    ,
+@calculatedFrom( """" //	t
+) char[ 4294967296 ]lengthOf @calculatedFrom(
+    ""// no comment""  ) // " ++ [128512]%N ++ runes_of_ascii " emoji
+, // c
+@leftPad
+    (
+    ' '
+    )zchar[007 ] options1
+    , i64_  { f64 msg_type
+    , u8x {
+    repeat// " ++ [128512]%N ++ runes_of_ascii " emoji
+f32a
+    //	t
+    { roots@calculatedFrom( ""{,}"" )`tab	here` // " ++ [128512]%N ++ runes_of_ascii " emoji
+, }
+//x
+//x
+,/// triple
+} // a // b
+, u64 // " ++ [128512]%N ++ runes_of_ascii " emoji
+Logon
+, }// c
+, // trailing space 
+@lengthOf( i64_) char[ 3	] u8x  @lengthOf( // packet A { u8 x, }
+stringy
+) `two words`,
+// " ++ [128512]%N ++ runes_of_ascii " emoji
+//
+} MetaData f32a {}")).
+Eval vm_compute in ("<<<M3737>>>" ++ check (runes_of_ascii "
 
-  options
+  packet 	 // " ++ [27880; 37322]%N ++ runes_of_ascii "
 
-{ a
+MetaDataX /// triple
+    {char[  1 ] T ,
+char[] 
+Foo@calculatedFrom( ""{,}""
+	)
+,
+a1 
+// " ++ [27880; 37322]%N ++ runes_of_ascii "
+  ,
+@lengthOf( 
+roots 
+)
+falsey
+int`u8 x,` 
+,
+
+    char[ 0123456789] a1  `
+`
+,
+string
+	Z9_ @calculatedFrom(""`tick`""
+
+),
+zchar[
+00] 
+Logon
+
+@lengthOf(
+
+    u128// " ++ [128512]%N ++ runes_of_ascii " emoji
+  	)
+	`tab	here`,
+@calculatedFrom( 
+""a	b""	) Z9_{ repeat
+
+stringy { int16
+
+string_
+    ,
+    string  //x
+	tag
+    @lengthOf( 	 // `tick` ""quote"" 'q'
+  a1
+    ) 	 // 50% %s
+  , } ,
+	} ,
+repeat
+	charz{ lengthOf
+	f32a
+	,
+
+    }
+, char[ 65535
+] crc
+`" ++ [28040; 24687; 31867; 22411]%N ++ runes_of_ascii "`
+
+    ,}	packet
+len {	rootA 	 // c
+  	{ repeat
+
+    string string_,  string pack ,
+    char[]
+
+roots,
+},
+
+    }//
+")).
+Eval vm_compute in ("<<<M1153>>>" ++ check (runes_of_ascii "MetaData
+pack
+    { char[ 10
+    ] _x , calculatedFrom MetaDataX `" ++ [233]%N ++ runes_of_ascii "`  , /// triple
+int32 pack, i16  lengthOf`doc`, a1
+    u // trailing space 
+``
+    , char[ 255 ]
+T
+,
+    }
+    /// triple
+    MetaData stringy { T falsey `say ""hi""` ,char[ 7 ] leftPad `" ++ [233]%N ++ runes_of_ascii "` ,}root packet packetx { char[
+    42 ] u ,
+i32
+    tag @calculatedFrom( ""abc""
+    ) `" ++ [233]%N ++ runes_of_ascii "` , // " ++ [27880; 37322]%N ++ runes_of_ascii "
+u8
+calculatedFrom `say ""hi""`
+,
+    repeat _x `` //x
+,  repeat leftPad falsey  , i8i8 {
+string T `line1
+line2`
+    ,} ,	}
+    MetaData T {_x msg_type , char[ 007
+    ] trueish, char[] lengthOf
+`two words` ,char[]// `tick` ""quote"" 'q'
+zchar
+`line1
+line2` , metadata  uint8x `" ++ [233]%N ++ runes_of_ascii "` ,
+    // " ++ [27880; 37322]%N ++ runes_of_ascii "
+    }
+
+")).
+Eval vm_compute in ("<<<M984>>>" ++ check (runes_of_ascii "
+packet Pad  {
+    }packet packetx{ //x
+repeatCount	, // packet A { u8 x, }
+@leftPad
+(
+'\x00' ) tag	@lengthOf( u128 ) ,MetaDataX	@calculatedFrom( // a // b
+""\" ++ [233]%N ++ runes_of_ascii """
+    ) `tab	here`, // a // b
+uint16 body
+@calculatedFrom( ""abc"") `say ""hi""` , // trailing space 
+}
+    packet // packet A { u8 x, }
+x{ u16 a1  `crlf
+line` , }root packet Z9_ {
+    @calculatedFrom(""CRC32"" ) repeat
+string pack
+`say ""hi""` ,
+repeat
+zchar[ 3] charz , //	t
+i16 f32a @calculatedFrom(""{,}""
+    )
+, } packet
+len {@lengthOf(//
+crc ) zchar[ 00
+//x
+// packet A { u8 x, }
+] f32a @calculatedFrom( ""it's"" // packet A { u8 x, }
+)
+, // " ++ [128512]%N ++ runes_of_ascii " emoji
+} 	 ")).
+Eval vm_compute in ("<<<M602>>>" ++ check (runes_of_ascii "packet
+// 50% %s
+// " ++ [27880; 37322]%N ++ runes_of_ascii "
+Header {
+zchar[
+0123456789 ]i64_
+    // @lengthOf(
+    , @lengthOf(calculatedFrom ) u8x
+calculatedFrom , @tag( //
+1
+) repeat float32
+BodyLength ,chars crc	, repeat string	Header `{ , }` , @calculatedFrom( // packet A { u8 x, }
+""\n""	)
+    _x
+@calculatedFrom(""it's"" ) , falsey{
+    packetx
+// c
+// " ++ [128512]%N ++ runes_of_ascii " emoji
+@lengthOf( Z9_ ) ,	As{
+    zchar[
+3 ]i64_ , } , string	u8x @calculatedFrom( ""a\""b""
+) , }
+, int32 T @calculatedFrom(
+    ""{,}"" ) , len  { char[]chars@lengthOf( zchar ) , int16
+    MetaDataX @lengthOf( a1
+) , } , // `tick` ""quote"" 'q'
+@tag(
+    65535 )repeat f64 u , }
+")).
+Eval vm_compute in ("<<<M3334>>>" ++ check (runes_of_ascii "// top
+options // c0a
+  // c0b
+{ // c1
+msg_type // c2
+= 255 o = '\x00' // c7a
+  // c7b
+; // c8
+x_y_z =
+    // c10
+""abc"" // c11
+; int // c13
+= // c14a
+  // c14b
+00 // c15
+; // c16
+body = // c18
+""\" ++ [233]%N ++ runes_of_ascii """ // c19
+;
+    // c20
+}
+    // c21
+MetaData // c22
+BodyLength // c23
+{ // c24
+repeatCount
+    // c25
+metadata // c26
+`a\` // c27
+, // c28a
+  // c28b
+f64 // c29a
+  // c29b
+float // c30a
+  // c30b
+`tab	here` ,
+    // c32
+zchar[ // c33
+4294967296 ]
+    // c35
+metadata
+    // c36
+`" ++ [233]%N ++ runes_of_ascii "` // c37
+, // c38a
+  // c38b
+zchar[
+    // c39
+255 ] float // c42a
+  // c42b
+,
+    // c43
+}
+    // c44
+")).
+Eval vm_compute in ("<<<M898>>>" ++ check (runes_of_ascii "packet // packet A { u8 x, }
+zchar { }
+options {
+//x
+// a // b
+pack = """ ++ [128512]%N ++ runes_of_ascii """
+} MetaData float {int16
+Pad
+    //
+    ,asx u , char[]
+// 50% %s
+// " ++ [27880; 37322]%N ++ runes_of_ascii "
+uint8x
+    ,
+} packet
+    uint8x {  @lengthOf( Pad  ) /// triple
+Logon stringy,
+    @lengthOf(float	) zchar[
+    00]
+    float ,
+@leftPad( '\x00'
+)char[ 0 ]  zchar@lengthOf(Header ) `say ""hi""`
+    ,
+    zchar[
+007
+    ] Packet  `u8 x,`, repeat
+    float32 BodyLength,	char[]stringy@calculatedFrom(
+""// no comment""  ) , char[00 // a // b
+]charz , @calculatedFrom(	""\" ++ [233]%N ++ runes_of_ascii """ )i32 i64_ @calculatedFrom(
+""it's"" ), }
+")).
+Eval vm_compute in ("<<<M3929>>>" ++ check (runes_of_ascii "root  packet
+	options1
+
+{
+stringy @calculatedFrom(
+    // " ++ [27880; 37322]%N ++ runes_of_ascii "
+  	""packet"")
+
+    ,// @lengthOf(
+	match 
+a1
+
+    as Pad{ ""x y""
+:	f32a
+
+[ """ ++ [233]%N ++ runes_of_ascii "t" ++ [233]%N ++ runes_of_ascii """
+
+, 1
+        // " ++ [27880; 37322]%N ++ runes_of_ascii "
+//
+    , 
+""it's"" ,
+
+""a\""b""
+
+,
+
+    10
+
+, 42
+
+,
+""" ++ [233]%N ++ runes_of_ascii "t" ++ [233]%N ++ runes_of_ascii """	,
+    """ ++ [233]%N ++ runes_of_ascii "t" ++ [233]%N ++ runes_of_ascii """]
+	:
+
+    Packet  //
+} 
+      // `tick` ""quote"" 'q'
+
+	// " ++ [128512]%N ++ runes_of_ascii " emoji
+  ,repeat
+
+float32 float `" ++ [28040; 24687; 31867; 22411]%N ++ runes_of_ascii "` ,
+    u8 u8x
+`crlf
+line` ,
+	@calculatedFrom(""" ++ [28040; 24687]%N ++ runes_of_ascii """ 
+) @calculatedFrom(	""a\""b"")	char[	42 	 // " ++ [128512]%N ++ runes_of_ascii " emoji
+		]	int
+,float32 _x 	 // c
+  @calculatedFrom( ""// no comment""  // c
+  	)
+
+    ,charz
+pack, }
+")).
+Eval vm_compute in ("<<<M3484>>>" ++ check (runes_of_ascii "options{
+LittleEndian 
+=true	;	FixedStringPadFromLeft=true ;  FixedStringPadChar
+
+= '0'
+    ; }
+packet
+
+    Reject
+{  @rightPad (
+'0' )
+
+char[	1
+]Tail
+, string msgKind,InQty95{
+	u8 pad0
+	,	}
+
+, }
+packet  Order
+	{
+uint32
+Ref ,repeat 
+i16
+
+    seqNo
+,  @rightPad	(
+
+    '\x00')
+char[ 5
+
+    ] Tail
+    ,
+    Reject,
+
+    f64
+
+clOrdID
+
+, }packet
+
+    Heartbeat
+
+{ 
+repeat 
+Order
+, zchar[	8
+
+] Tail ,
+}	root	packet
+
+Fill
+{
+repeat
+    Order ,
+
+    repeat
+	string
+
+    lastPx, 
+}
+")).
+Eval vm_compute in ("<<<M217>>>" ++ check (runes_of_ascii "packet	crc { //
+match	uint8x as x { 0: charz [0123456789, 00, 65535 ,
+    //x
+    ""abc""
+//
+// c
+,
+// " ++ [128512]%N ++ runes_of_ascii " emoji
+//	t
+10	, 42
+,
+""`tick`"" ,00
+    ] //
+:
+// packet A { u8 x, }
+// c
+crc
+    ,[ ""{,}"" ] :
+    tag,	""abc""
+    :
+len , ""`tick`"" /// triple
+: int }
+    , }
+packet u {
+    string
+// a // b
+// " ++ [27880; 37322]%N ++ runes_of_ascii "
+Header, @calculatedFrom( """ ++ [233]%N ++ runes_of_ascii "t" ++ [233]%N ++ runes_of_ascii """ )
+repeat int Z9_ ,@calculatedFrom(
+    ""// no comment""
+) float32 // trailing space 
+uint8x`u8 x,` , Foo
+@calculatedFrom( // " ++ [128512]%N ++ runes_of_ascii " emoji
+""a\\"" )`
+` , }")).
+Eval vm_compute in ("<<<M423>>>" ++ check (runes_of_ascii "options	{ u8x = ""x y"";
+}
+options { crc= false; }
+    root
+    packet a1 {
+    repeat zchar[ 0 ] metadata , } packet Pad {
+pack  { char[ 4294967296 ] tag ,i64 asx//x
+@lengthOf( Z9_ )
+`" ++ [233]%N ++ runes_of_ascii "` ,
+    }, @lengthOf( // @lengthOf(
+asx // packet A { u8 x, }
+)zchar[
+3// packet A { u8 x, }
+]	pack
+    @calculatedFrom( ""x y""
+    // trailing space 
+    ) ,
+@calculatedFrom(
+""packet"" )repeat falsey	`// not a comment`	, } options
+{ metadata  =false zchar=
+    '\x00'}
+")).
+Eval vm_compute in ("<<<M4345>>>" ++ check (runes_of_ascii "packet
+
+    string_{
+match
+packetx	as  
+      // c
+	  u128{  10
+
+:
+calculatedFrom,  42
+	:
+	i8i8  ,
+7
+	:  rootA
+
+    [
+
+    ""a\\"" 	 // trailing space 
+  , 007 	 //	t
+		,
+
+10
+	,
+""1""
+
+    ,
+""" ++ [28040; 24687]%N ++ runes_of_ascii """ ,
+        // a // b
+      // `tick` ""quote"" 'q'
+    ""// no comment""	, ""a\""b""  ]  :T
+	42
+	:  crc
+, }
+    , len	@lengthOf(
+	o
+	) 
+      //x
+//x
+  ``
+
+    , 	 // a // b
+@rightPad
+
+    (	'\x00'  )
+
+    repeat
+    char[]
+int
+
+,  }")).
+Eval vm_compute in ("<<<M610>>>" ++ check (runes_of_ascii "root
+    // @lengthOf(
+    packet trueish { string Packet
+`say ""hi""` // " ++ [128512]%N ++ runes_of_ascii " emoji
+,	Logon { f64
+repeatCount  ,} , } options
+{// a // b
+Header =true; uint8x = '\x00' ; Z9_ =  int16	} packet tag {  repeat tag {	int8 uint8x	@calculatedFrom( ""it's"" )
+    ,  repeat float32 // packet A { u8 x, }
+crc , }  ,
+} options { roots
+= 255
+; } root // c
+packet
+    Foo
+    {
+@tag(
+7
+)  packetx@calculatedFrom(
+    ""`tick`"" )
+, }
+")).
+Eval vm_compute in ("<<<M3931>>>" ++ check (runes_of_ascii "// " ++ [128512]%N ++ runes_of_ascii " emoji
+MetaData len {
+    chars len,
+    u128 trueish `
+    `,
+    // packet A { u8 x, }
+    int8 pack,
+    zchar[00] repeatCount `it's`,
+    zchar[42] calculatedFrom,
+    lengthOf Pad,
+}
+
+MetaData lengthOf {
+    //	t
+    // @lengthOf(
+    x_y_z asx,
+}
+
+packet x_y_z {
+    repeat uint16 x_y_z,
+    @tag(1)
+    match u128 as rootA {
+        3 : tag,
+        ""\n"" : pack,
+        [""" ++ [233]%N ++ runes_of_ascii "t" ++ [233]%N ++ runes_of_ascii """, 7] : T,
+    },
+}")).
+Eval vm_compute in ("<<<M337>>>" ++ check (runes_of_ascii "packet Pad
+{ @calculatedFrom( ""{,}""  ) match charz  as asx // " ++ [128512]%N ++ runes_of_ascii " emoji
+{ 1
+:  repeatCount// trailing space 
+, ""{,}"" : falsey
+,
+10
+// " ++ [27880; 37322]%N ++ runes_of_ascii "
+// " ++ [27880; 37322]%N ++ runes_of_ascii "
+: rootA
+, 0
+    : crc
+    ,
+00
+    :
+    roots, } ,
+    /// triple
+    zchar[3 ] A  ,msg_type `
+`
+    , MetaDataX As ,	@lengthOf(Z9_)
+repeat f32 _x ,@lengthOf(	Pad
+    )uint32
+Logon,  @tag( 4294967296 ) // packet A { u8 x, }
+T
+    //
+    ``,
+}
+")).
+Eval vm_compute in ("<<<M330>>>" ++ check (runes_of_ascii "
+packet uint8x {
+    @lengthOf(
+// a // b
+//x
+falsey ) // " ++ [128512]%N ++ runes_of_ascii " emoji
+uint32 int , @lengthOf( BodyLength // c
+)
+    // trailing space 
+    @calculatedFrom(
+    ""a\""b""
+) repeat
+matchKey u/// triple
+,
+    asx MetaDataX `line1
+line2` ,
+@leftPad ( '\x00'
+) repeat i64_ len,
+    u, @calculatedFrom(
+""abc""	) char[// 50% %s
+65535 ]
+    MetaDataX
+// c
+// @lengthOf(
+`" ++ [28040; 24687; 31867; 22411]%N ++ runes_of_ascii "`, } 	 ")).
+Eval vm_compute in ("<<<M1252>>>" ++ check (runes_of_ascii "MetaData// `tick` ""quote"" 'q'
+Packet{ calculatedFrom BodyLength
+    `{ , }` ,
+int64 i8i8 `{ , }` , // `tick` ""quote"" 'q'
+} packet  chars
+{
+//
+// `tick` ""quote"" 'q'
+} // a // b
+root packet tag { @rightPad
+(// trailing space 
+) char[ 7 ]	roots
+    // 50% %s
+    @calculatedFrom( ""it's"" )
+// c
+// @lengthOf(
+`it's`
+    ,
+// @lengthOf(
+// trailing space 
+}")).
+Eval vm_compute in ("<<<M982>>>" ++ check (runes_of_ascii "MetaData u128 {
+int64
+a1`// not a comment` ,
+}root	packet
+string_{	@tag( 42 ) match zchar as
+msg_type { 10 : int
+} , @calculatedFrom( """ ++ [233]%N ++ runes_of_ascii "t" ++ [233]%N ++ runes_of_ascii """)
+char[]  string_  , repeat char[7] string_/// triple
+, @lengthOf( float) //
+repeat
+int x_y_z , }
+packet
+//	t
+// @lengthOf(
+As {
+    //	t
+    lengthOf @calculatedFrom(  ""CRC32"" )`two words`  , }
+")).
+Eval vm_compute in ("<<<M655>>>" ++ check (runes_of_ascii "packet
+    f32a
+{
+@lengthOf(stringy
+    ) // trailing space 
+char[42 ] // c
+body , trueish o ,char[] rootA @calculatedFrom(
+""// no comment""
+)
+``
+    , calculatedFrom `crlf
+line` ,}  MetaData	o {i8i8 i8i8 `100% of %d`, msg_type	Z9_ , // " ++ [27880; 37322]%N ++ runes_of_ascii "
+uint32 matchKey
+, // a // b
+} options  { crc
+    = char[]
+    ; } // @lengthOf(")).
+Eval vm_compute in ("<<<M1308>>>" ++ check (runes_of_ascii "MetaData
+Foo  { string msg_type `" ++ [28040; 24687; 31867; 22411]%N ++ runes_of_ascii "`, }
+MetaData u8x {}  packet  Foo
+//	t
+//
+{@lengthOf(
+    tag)
+u128 msg_type
+,
+    @calculatedFrom( ""// no comment"" )crc @calculatedFrom(""{,}""
+) `doc`
+,char[ 007 ]  roots
+    , } options {
+    calculatedFrom //	t
+=float32
+pack ='\x00' ; Packet	= ""// no comment""
+    }")).
+Eval vm_compute in ("<<<M933>>>" ++ check (runes_of_ascii "MetaData x
+{	string Pad,
+float32 zchar , char[]repeatCount ,stringy
+f32a ,
+repeatCount
+tag , } MetaData
+    A{ zchar[ 3 ]
+string_ ,
+    }
+MetaData u128 {
+u64 len ,	Packet // " ++ [128512]%N ++ runes_of_ascii " emoji
+a1 , char[ 4294967296	]	chars
+`two words`
+, zchar[ 7 ] u128 `doc` , }
+    //x
+    options {x= // " ++ [27880; 37322]%N ++ runes_of_ascii "
+false ; }")).
+Eval vm_compute in ("<<<M4053>>>" ++ check (runes_of_ascii "  options  //
+
+{
+	repeatCount
 
     =
-	1 // a
-; } ")).
-Eval vm_compute in ("<<<M1754>>>" ++ check (runes_of_ascii "packet Header {
-    char[] body,
-}")).
-Eval vm_compute in ("<<<M988>>>" ++ check (runes_of_ascii "packet A {
- u8 x `d" ++ [133]%N ++ runes_of_ascii "`, // c" ++ [133]%N ++ runes_of_ascii "
-}")).
-Eval vm_compute in ("<<<M512>>>" ++ check (runes_of_ascii "root packet tag { }  packet")).
-Eval vm_compute in ("<<<M1739>>>" ++ check (runes_of_ascii "  packet
 
-A
-	{}
-// c" ++ [12288]%N ++ runes_of_ascii "
-")).
-Eval vm_compute in ("<<<M1387>>>" ++ check (runes_of_ascii "MetaData o { // c
+0;
+msg_type
+=float64
+    ; options1= ""`tick`"" 
+	    // `tick` ""quote"" 'q'
+  ; 	 // packet A { u8 x, }
+  tag = // c
+""\" ++ [233]%N ++ runes_of_ascii """}
+options {
+// @lengthOf(
+  // 50% %s
+
+calculatedFrom  =
+
+true
+    ;
+
+    Foo =  7 
+crc 
+= ""it's""
+u	=false
+
+    ;	}")).
+Eval vm_compute in ("<<<M3838>>>" ++ check (runes_of_ascii "options {
+    calculatedFrom = ""\n"";
+}
+
+root packet lengthOf {
+    /// triple
+    @calculatedFrom(""\" ++ [233]%N ++ runes_of_ascii """)
+    repeatCount @calculatedFrom(""\" ++ [233]%N ++ runes_of_ascii """) `
+    `,
+    Logon,
+    u @calculatedFrom(""it's""),
+    metadata rootA,
+    char[42] u @calculatedFrom(""a	b""),
+}
+
+packet Header {
 }")).
-Eval vm_compute in ("<<<M1032>>>" ++ check (runes_of_ascii "// c" ++ [12]%N ++ runes_of_ascii "
+Eval vm_compute in ("<<<M1594>>>" ++ check (runes_of_ascii "// 50% %s
+packet	a1
+    { zchar[
+// a // b
+// 50% %s
+007]
+T `it's`
+    ,@rightPad
+    // a // b
+    (
+'\x00')
+    o repeatCount repeat }  packet Logon {  }packet	Logon //x
+{ repeat // " ++ [128512]%N ++ runes_of_ascii " emoji
+uint16 u128
+    //
+    `a\`,
+falsey
+@calculatedFrom(""packet"" ) ,
+    } 	 ")).
+Eval vm_compute in ("<<<M1582>>>" ++ check (runes_of_ascii "// 50% %s
+packet	a1
+    { zchar[
+// a // b
+// 50% %s
+007]
+T `it's`
+    ,@rightPad
+    // a // b
+    (
+'\x00')
+    o o repeatCount , }  packet Logon {  }packet	Logon //x
+{ repeat // " ++ [128512]%N ++ runes_of_ascii " emoji
+uint16 u128
+    //
+    `a\`,
+falsey
+@calculatedFrom(""packet"" ) ,
+    } 	 ")).
+Eval vm_compute in ("<<<M1523>>>" ++ check (runes_of_ascii "// 50% %s
+packet	{
+    a1 zchar[
+// a // b
+// 50% %s
+007]
+T `it's`
+    ,@rightPad
+    // a // b
+    (
+'\x00')
+    o repeatCount , }  packet Logon {  }packet	Logon //x
+{ repeat // " ++ [128512]%N ++ runes_of_ascii " emoji
+uint16 u128
+    //
+    `a\`,
+falsey
+@calculatedFrom(""packet"" ) ,
+    } 	 ")).
+Eval vm_compute in ("<<<M1683>>>" ++ check (runes_of_ascii "// 50% %s
+packet	a1
+    { zchar[
+// a // b
+// 50% %s
+007]
+T `it's`
+    ,@rightPad
+    // a // b
+    (
+'\x00')
+    o repeatCount , }  packet Logon {  }packet	Logon //x
+{ repeat // " ++ [128512]%N ++ runes_of_ascii " emoji
+uint16 u128
+    //
+    `a\`,
+falsey
+@calculatedFrom(""packet"" ) }
+    , 	 ")).
+Eval vm_compute in ("<<<M1649>>>" ++ check (runes_of_ascii "// 50% %s
+packet	a1
+    { zchar[
+// a // b
+// 50% %s
+007]
+T `it's`
+    ,@rightPad
+    // a // b
+    (
+'\x00')
+    o repeatCount , }  packet Logon {  }packet	Logon //x
+{ repeat // " ++ [128512]%N ++ runes_of_ascii " emoji
+uint16 {
+    //
+    `a\`,
+falsey
+@calculatedFrom(""packet"" ) ,
+    } 	 ")).
+Eval vm_compute in ("<<<M4290>>>" ++ check (runes_of_ascii "// a // b
+packet
+As { As	{_x@calculatedFrom(
+""\" ++ [233]%N ++ runes_of_ascii """
+
+    )  ,  i8 
+metadata @lengthOf( repeatCount ) // `tick` ""quote"" 'q'
+, 
+float64
+
+    lengthOf	`` 
+      // packet A { u8 x, }
+,
+	o
+`a\`	, }
+,
+	@lengthOf( f32a  ) repeat
+tag
+u128
+	,
+	}// @lengthOf(
+")).
+Eval vm_compute in ("<<<M1161>>>" ++ check (runes_of_ascii "options	{ Foo= true	;  }packet u128 {
+    //x
+    @calculatedFrom(
+    // a // b
+    ""x y""
+    )
+lengthOf @lengthOf(
+    msg_type ) `line1
+line2`, @tag( 4294967296) match
+uint8x as
+x{ 00 : // " ++ [27880; 37322]%N ++ runes_of_ascii "
+T
+,""`tick`"" : i64_ ,} ,
+repeat // a // b
+body , }
+")).
+Eval vm_compute in ("<<<M397>>>" ++ check (runes_of_ascii "// a // b
+packet
+As{As
+{
+_x @calculatedFrom(
+""\" ++ [233]%N ++ runes_of_ascii """)
+    , i8 metadata @lengthOf(	repeatCount)// `tick` ""quote"" 'q'
+, float64 lengthOf ``
+    // packet A { u8 x, }
+    , o
+    `a\` , } ,
+@lengthOf( f32a )
+repeat tag u128 , } // @lengthOf(")).
+Eval vm_compute in ("<<<M4179>>>" ++ check (runes_of_ascii "root packet repeatCount {
+    char[] crc `{ , }`,
+    T {
+        i64_ asx,
+    },
+    // " ++ [27880; 37322]%N ++ runes_of_ascii "
+    @leftPad('0')
+    char[00] a1 @lengthOf(Logon) `it's`,
+    @tag(00)
+    @calculatedFrom(""" ++ [233]%N ++ runes_of_ascii "t" ++ [233]%N ++ runes_of_ascii """)
+    int32 x,
+}
+
+root packet tag {
+}")).
+Eval vm_compute in ("<<<M3592>>>" ++ check (runes_of_ascii "MetaData chars {
+    zchar[255] uint8x,
+    u8 body,// " ++ [27880; 37322]%N ++ runes_of_ascii "
+    char[1] A,
+    float32 As ``,
+    BodyLength roots `// not a comment`,
+}
+
+options {
+    Pad = 42;
+    pack = true
+    pack = false;// 50% %s
+    len = ' ';
+}")).
+Eval vm_compute in ("<<<M345>>>" ++ check (runes_of_ascii "MetaData
+    // `tick` ""quote"" 'q'
+    x_y_z
+// c
+//	t
+{ zchar[
+    42 ]
+    leftPad
+`{ , }` ,	crc
+    /// triple
+    pack , f64 string_ `` , x_y_z i64_,float64 u8x
+    `doc`  ,
+    // 50% %s
+    uint64 u , }
+")).
+Eval vm_compute in ("<<<M3437>>>" ++ check (runes_of_ascii "
+root
+packet
+
+Frame 
+{ u8 
+K , 
+Logon first
+
+    ,  match
+K
+
+as	Body {1 :
+Logon	, 2
+
+:
+	Logout
+, }
+
+    , }
+
+    packet  Logon {
+
+string user	,
+	}
+packet
+    Logout{
+    u16  reason
+
+    ,	}")).
+Eval vm_compute in ("<<<M4362>>>" ++ check (runes_of_ascii "packet As {
+    zchar[3] o @lengthOf(Header) `doc`,
+    repeat char[] string_,
+    @tag(1)
+    match BodyLength as msg_type {
+        """ ++ [28040; 24687]%N ++ runes_of_ascii """ : u8x,
+    },
+    @tag(255)
+    repeat char[] crc,
+}")).
+Eval vm_compute in ("<<<M1140>>>" ++ check (runes_of_ascii "MetaData
+pack
+{ u8 _x
+    //x
+    ,
+    //	t
+    zchar
+    uint8x`two words`  ,  chars  i8i8 // trailing space 
+,	}
+MetaData
+chars{
+    //
+    i64 pack	`` ,
+} packet _x
+{
+    }
+
+")).
+Eval vm_compute in ("<<<M1640>>>" ++ check (runes_of_ascii "// 50% %s
+packet	a1
+    { zchar[
+// a // b
+// 50% %s
+007]
+T `it's`
+    ,@rightPad
+    // a // b
+    (
+'\x00')
+    o repeatCount , }  packet Logon {  }packet	Logon //x
+{")).
+Eval vm_compute in ("<<<M4045>>>" ++ check (runes_of_ascii "  packet 	 /// triple
+  matchKey	{@calculatedFrom(	// @lengthOf(
+""// no comment""  ) 
+repeat
+    rootA, 	 // a // b
+  body
+    ``	,} 
+packet
+    u128
+    {
+
+    }
+")).
+Eval vm_compute in ("<<<M1053>>>" ++ check (runes_of_ascii "
+options {
+    // " ++ [128512]%N ++ runes_of_ascii " emoji
+    Header
+    /// triple
+    = true ;
+// `tick` ""quote"" 'q'
+// a // b
+float	=uint8
+;	trueish
+    = ""\" ++ [233]%N ++ runes_of_ascii """ ;Header=
+    0 } /// triple")).
+Eval vm_compute in ("<<<M2088>>>" ++ check (runes_of_ascii "MetaData BodyLength
+{ int8 Foo
+, string
+    MetaDataX @lengthOf( float zchar ,pack options1
+,asx string_, }
+packet u8x {Foo@lengthOf(charz )
+`" ++ [28040; 24687; 31867; 22411]%N ++ runes_of_ascii "`,  }
+")).
+Eval vm_compute in ("<<<M554>>>" ++ check (runes_of_ascii "packet f32a {
+    } packet falsey {char[]calculatedFrom, }
+root packet asx {
+    @calculatedFrom( """ ++ [128512]%N ++ runes_of_ascii """ //
+)
+    uint8 trueish @lengthOf(packetx ) ,}")).
+Eval vm_compute in ("<<<M2168>>>" ++ check (runes_of_ascii "MetaData BodyLength
+{ int8 Foo
+, string
+    MetaDataX , float zchar ,pack options1
+,asx string_, }
+packet u8x {Foo@lengthOf(options )
+`" ++ [28040; 24687; 31867; 22411]%N ++ runes_of_ascii "`,  }
+")).
+Eval vm_compute in ("<<<M3375>>>" ++ check (runes_of_ascii "
+packet B{ 
+u8
+    a
+
+    ,	}
+
+root
+
+packet
+P {	u8
+	K,
+
+u64
+    L
+
+@lengthOf(
+
+Body)
+	,match
+    K as
+
+    Body
+
+    {	1
+	: B
+, }
+	,
+
+}
+
+")).
+Eval vm_compute in ("<<<M2172>>>" ++ check (runes_of_ascii "MetaData BodyLength
+{ int8 Foo
+, string
+    MetaDataX , float zchar ,pack options1
+,asx string_, }
+packet u8x {Foo@lengthOf(charz `" ++ [28040; 24687; 31867; 22411]%N ++ runes_of_ascii "`
+),  }
+")).
+Eval vm_compute in ("<<<M182>>>" ++ check (runes_of_ascii "MetaData  len {	trueish int ,  i64 charz
+    // " ++ [128512]%N ++ runes_of_ascii " emoji
+    ,	int32 chars , u16
+    Logon `100% of %d`
+, zchar[00
+] zchar
+    ,/// triple
+}")).
+Eval vm_compute in ("<<<M2217>>>" ++ check (runes_of_ascii "options
+    repeat
+x_y_z// " ++ [27880; 37322]%N ++ runes_of_ascii "
+= 10 ; }
+packet body {
+    @calculatedFrom(
+// trailing space 
+// " ++ [27880; 37322]%N ++ runes_of_ascii "
+""1""
+)	match T as Foo
+    {
+255 :T , }
+,}")).
+Eval vm_compute in ("<<<M50>>>" ++ check (runes_of_ascii "MetaData leftPad
+    { uint64 tag	`{ , }`
+, i64
+    chars
+`
+`
+    , }packet MetaDataX
+    /// triple
+    { char[ 0 ]
+x `100% of %d` ,
+}
+")).
+Eval vm_compute in ("<<<M2075>>>" ++ check (runes_of_ascii "MetaData BodyLength
+{ int8 Foo
+, 
+    MetaDataX , float zchar ,pack options1
+,asx string_, }
+packet u8x {Foo@lengthOf(charz )
+`" ++ [28040; 24687; 31867; 22411]%N ++ runes_of_ascii "`,  }
+")).
+Eval vm_compute in ("<<<M2036>>>" ++ check (runes_of_ascii "
+pac@ket leftPad {
+@leftPad( '0')
+u32
+i64_ `100% of %d` ,repeat// 50% %s
+i8 chars
+    ,
+} MetaData
+    f32a
+{ // packet A { u8 x, }
+}")).
+Eval vm_compute in ("<<<M1968>>>" ++ check (runes_of_ascii "
+packet leftPad {
+@leftPad( '0')
+u32
+`100% of %d` i64_ ,repeat// 50% %s
+i8 chars
+    ,
+} MetaData
+    f32a
+{ // packet A { u8 x, }
+}")).
+Eval vm_compute in ("<<<M2285>>>" ++ check (runes_of_ascii "options
+    {
+x_y_z// " ++ [27880; 37322]%N ++ runes_of_ascii "
+= 10 ; }
+packet body {
+    @calculatedFrom(
+// trailing space 
+// " ++ [27880; 37322]%N ++ runes_of_ascii "
+""1""
+)	match T Foo as
+    {
+255 :T , }
+,}")).
+Eval vm_compute in ("<<<M2238>>>" ++ check (runes_of_ascii "options
+    {
+x_y_z// " ++ [27880; 37322]%N ++ runes_of_ascii "
+= 10 ; 
+packet body {
+    @calculatedFrom(
+// trailing space 
+// " ++ [27880; 37322]%N ++ runes_of_ascii "
+""1""
+)	match T as Foo
+    {
+255 :T , }
+,}")).
+Eval vm_compute in ("<<<M1961>>>" ++ check (runes_of_ascii "
+packet leftPad {
+@leftPad( '0')
+
+i64_ `100% of %d` ,repeat// 50% %s
+i8 chars
+    ,
+} MetaData
+    f32a
+{ // packet A { u8 x, }
+}")).
+Eval vm_compute in ("<<<M3627>>>" ++ check (runes_of_ascii "packet
+A
+	{	match
+
+k
+    as 
+n
+
+    { [
+
+1
+
+, ""bb"" ,
+    007, ""d""
+,
+
+5,""f"", 7 , ""h"" ,9
+
+    ,  ""j""
+,
+11
+
+]: B ,
+2
+: C }
+,
+}")).
+Eval vm_compute in ("<<<M2312>>>" ++ check (runes_of_ascii "options
+    {
+x_y_z// " ++ [27880; 37322]%N ++ runes_of_ascii "
+= 10 ; }
+packet body {
+    @calculatedFrom(
+// trailing space 
+// " ++ [27880; 37322]%N ++ runes_of_ascii "
+""1""
+)	match T as Foo
+    {
+255 :")).
+Eval vm_compute in ("<<<M1974>>>" ++ check (runes_of_ascii "
+packet leftPad {
+@leftPad( '0')
+u32
+i64_ = ,repeat// 50% %s
+i8 chars
+    ,
+} MetaData
+    f32a
+{ // packet A { u8 x, }
+}")).
+Eval vm_compute in ("<<<M4266>>>" ++ check (runes_of_ascii "packet
+T
+
+{
+    match  repeatCount
+
+as
+    calculatedFrom{[ 65535
+]
+
+    :
+    As 
+}
+	,}
+        // trailing space 
+ 
+")).
+Eval vm_compute in ("<<<M1919>>>" ++ check (runes_of_ascii "packet o {
+    roots `it's`
+// trailing space 
+//x
+, char[ 4'1'2
+    ]  A, // " ++ [27880; 37322]%N ++ runes_of_ascii "
+f64
+repeatCount
+    `crlf
+line`
+,}")).
+Eval vm_compute in ("<<<M347>>>" ++ check (runes_of_ascii "/// triple
+root packet	x
+// " ++ [128512]%N ++ runes_of_ascii " emoji
+// c
+{ @lengthOf(
+calculatedFrom ) string_ @lengthOf(i8i8
+) ,
+} // @lengthOf(")).
+Eval vm_compute in ("<<<M1874>>>" ++ check (runes_of_ascii "packet o {
+    roots `it's`
+// trailing space 
+//x
+, char[ 42
+    ]  ,A // " ++ [27880; 37322]%N ++ runes_of_ascii "
+f64
+repeatCount
+    `crlf
+line`
+,}")).
+Eval vm_compute in ("<<<M4405>>>" ++ check (runes_of_ascii "packet
+A {
+
+match k as
+	n {
+
+[""a"" ,
+""bb"" ,007 
+,
+	""d""	,""e""
+	,
+	66 ,
+
+    ""g"" ,
+""h""	, 9
+
+,
+
+""j""]: B 2:
+
+C
+},}
+")).
+Eval vm_compute in ("<<<M1845>>>" ++ check (runes_of_ascii "packet o {
+    { `it's`
+// trailing space 
+//x
+, char[ 42
+    ]  A, // " ++ [27880; 37322]%N ++ runes_of_ascii "
+f64
+repeatCount
+    `crlf
+line`
+,}")).
+Eval vm_compute in ("<<<M3006>>>" ++ check (runes_of_ascii "packet A {
+  match k as n {
+    [""a"", 22, ""c c"", 4, ""e"", 66, ""g"", 8, ""i"", 10, ""k"", 12] : B
+    2 : C
+  },
+}")).
+Eval vm_compute in ("<<<M3026>>>" ++ check (runes_of_ascii "packet A {
+    u16 len @lengthOf(body) `
+`,
+    u32 crc @calculatedFrom(""CRC32"") `
+`,
+    string body,
+}")).
+Eval vm_compute in ("<<<M2409>>>" ++ check (runes_of_ascii "MetaData
+    calculatedFrom
+{ zchar[  10 ]
+    As`tab	here`,
+    }// trailing space 
+options  { roots")).
+Eval vm_compute in ("<<<M3984>>>" ++ check (runes_of_ascii "
+
+  options 
+{
+LittleEndian =
+true
+;	}
+    root 
+packet  P
+	{ repeat	char cs ,u8
+x
+
+    ,	}
+
+")).
+Eval vm_compute in ("<<<M37>>>" ++ check (runes_of_ascii "MetaData metadata {
+    int8
+MetaDataX
+    ,char
+Header /// triple
+`say ""hi""` , A msg_type ,}
+")).
+Eval vm_compute in ("<<<M1348>>>" ++ check (runes_of_ascii "packet
+T
+// packet A { u8 x, }
+// c
+{ repeat string float `a\` ,}
+options {
+uint8x =
+f64 }
+")).
+Eval vm_compute in ("<<<M1478>>>" ++ check (runes_of_ascii "packet
+T
+{ match repeatCount as	calculatedFrom
+{ [65535 ]	: As	, ,
+} ,}
+// trailing space 
+")).
+Eval vm_compute in ("<<<M2010>>>" ++ check (runes_of_ascii "
+packet leftPad {
+@leftPad( '0')
+u32
+i64_ `100% of %d` ,repeat// 50% %s
+i8 chars
+    ,
+}")).
+Eval vm_compute in ("<<<M1758>>>" ++ check (runes_of_ascii "options{  lengthOf =//x
+i16;
+    BodyLength = 0 options pack
+= false;
+    A = char[ 3 ] }")).
+Eval vm_compute in ("<<<M2973>>>" ++ check (runes_of_ascii "packet A {
+  match k as n {
+    [1, 22, 007, 4, 5, 66, 7, 8, 9, 10] : B,
+    2 : C
+  },
+}")).
+Eval vm_compute in ("<<<M3031>>>" ++ check (runes_of_ascii "packet A {
+    B b `a
+    b
+  c`,
+    B `a
+    b
+  c`,
+    repeat B bs `a
+    b
+  c`,
+}")).
+Eval vm_compute in ("<<<M3950>>>" ++ check (runes_of_ascii "packet
+A
+{ u32	crc @calculatedFrom(	""x\
+y"" )
+
+,
+	@calculatedFrom(""x\
+y"" )  u8  y
+	,} ")).
+Eval vm_compute in ("<<<M1733>>>" ++ check (runes_of_ascii "options{  lengthOf =//x
+u32;
+    BodyLength = 0 ; pack
+= false;
+    A = char[ 3 ] }")).
+Eval vm_compute in ("<<<M1765>>>" ++ check (runes_of_ascii "options{  lengthOf =//x
+i16;
+    BodyLength = 0 ; pack
+ false;
+    A = char[ 3 ] }")).
+Eval vm_compute in ("<<<M1763>>>" ++ check (runes_of_ascii "options{  lengthOf =//x
+i16;
+    BodyLength = 0 ; =
+= false;
+    A = char[ 3 ] }")).
+Eval vm_compute in ("<<<M1318>>>" ++ check (runes_of_ascii "options { rootA
+= """ ++ [233]%N ++ runes_of_ascii "t" ++ [233]%N ++ runes_of_ascii """ tag =
+true body
+=	'0' }
+    root packet
+    leftPad{}")).
+Eval vm_compute in ("<<<M3264>>>" ++ check (runes_of_ascii "MetaData Foo { zchar[ 0 ] matchKey , } options
+// c
+{ lengthOf = i32 u = 00 ; }")).
+Eval vm_compute in ("<<<M1711>>>" ++ check (runes_of_ascii "{  lengthOf =//x
+i16;
+    BodyLength = 0 ; pack
+= false;
+    A = char[ 3 ] }")).
+Eval vm_compute in ("<<<M662>>>" ++ check (runes_of_ascii "options{ charz =// " ++ [128512]%N ++ runes_of_ascii " emoji
+false ; body =
+//	t
+//x
+'\x00' ; int = '0' } 	 ")).
+Eval vm_compute in ("<<<M3055>>>" ++ check (runes_of_ascii "packet A {
+    B b `tab
+	x`,
+    B `tab
+	x`,
+    repeat B bs `tab
+	x`,
+}")).
+Eval vm_compute in ("<<<M2904>>>" ++ check (runes_of_ascii "packet A {
+  match k as n {
+    [1, 22, ""c c"", 4] : B
+    2 : C
+  },
+}")).
+Eval vm_compute in ("<<<M411>>>" ++ check (runes_of_ascii "options{ x_y_z =
+false Logon =  ""packet""; // packet A { u8 x, }
+}
+")).
+Eval vm_compute in ("<<<M4093>>>" ++ check (runes_of_ascii "MetaData roots {
+    uint8x trueish,//
+    u32 len,
+}// @lengthOf(")).
+Eval vm_compute in ("<<<M1909>>>" ++ check (runes_of_ascii "packet o {
+    roots `it's`
+// trailing space 
+//x
+, char[ 42
+ ")).
+Eval vm_compute in ("<<<M2920>>>" ++ check (runes_of_ascii "packet A { Inner { match k as n { [1,22,007,4,5] : B, }, }, }")).
+Eval vm_compute in ("<<<M950>>>" ++ check (runes_of_ascii "
+packet
+    Pad {
+int64
+repeatCount
+    `" ++ [233]%N ++ runes_of_ascii "` , }options {}
+")).
+Eval vm_compute in ("<<<M4454>>>" ++ check (runes_of_ascii "packet pack {
+    zchar[255] f32a @calculatedFrom(""a\\""),
+}")).
+Eval vm_compute in ("<<<M2869>>>" ++ check (runes_of_ascii "packet A {
+  match k as n {
+    [1] : B
+    2 : C
+  },
+}")).
+Eval vm_compute in ("<<<M2089>>>" ++ check (runes_of_ascii "MetaData BodyLength
+{ int8 Foo
+, string
+    MetaDataX")).
+Eval vm_compute in ("<<<M4195>>>" ++ check (runes_of_ascii "root packet A {
+    u8 x `a
+        
+        b`,
+}")).
+Eval vm_compute in ("<<<M2262>>>" ++ check (runes_of_ascii "options
+    {
+x_y_z// " ++ [27880; 37322]%N ++ runes_of_ascii "
+= 10 ; }
+packet body {")).
+Eval vm_compute in ("<<<M3824>>>" ++ check (runes_of_ascii "root
+packet uint8x
+	{ }
+	root packet
+	Pad{ } ")).
+Eval vm_compute in ("<<<M3211>>>" ++ check (runes_of_ascii "packet A { char[ // a
+ 3 // b
+ ] // c
+ x, }")).
+Eval vm_compute in ("<<<M3648>>>" ++ check (runes_of_ascii "root packet A {
+    u8 x `a
+        b`,
+}")).
+Eval vm_compute in ("<<<M2782>>>" ++ check (runes_of_ascii "RLW#Cr\HnJuEcp4;]td&0WrJO&OqSsKnu (!ccg")).
+Eval vm_compute in ("<<<M2626>>>" ++ check (runes_of_ascii "packet A { match k as n { '0' : B }, }")).
+Eval vm_compute in ("<<<M914>>>" ++ check (runes_of_ascii "options	{ i8i8	= """ ++ [128512]%N ++ runes_of_ascii """;A=
+    i16 } //")).
+Eval vm_compute in ("<<<M797>>>" ++ check (runes_of_ascii "packet
+Packet { char[]
+    len ,}
+")).
+Eval vm_compute in ("<<<M2621>>>" ++ check (runes_of_ascii "packet A { match k as { 1 : B }, }")).
+Eval vm_compute in ("<<<M1540>>>" ++ check (runes_of_ascii "// 50% %s
+packet	a1
+    { zchar[")).
+Eval vm_compute in ("<<<M2727>>>" ++ check (runes_of_ascii "S$SH3 2s,W$*uNi`du.E1%RB1PJJ""Y;")).
+Eval vm_compute in ("<<<M3129>>>" ++ check (runes_of_ascii "packet A {
+ u8 x `d" ++ [8232]%N ++ runes_of_ascii "`, // c" ++ [8232]%N ++ runes_of_ascii "
+}")).
+Eval vm_compute in ("<<<M425>>>" ++ check (runes_of_ascii "packet
+calculatedFrom
+{ } //")).
+Eval vm_compute in ("<<<M1950>>>" ++ check (runes_of_ascii "
+packet leftPad {
+@leftPad")).
+Eval vm_compute in ("<<<M3024>>>" ++ check (runes_of_ascii "packet A {
+    u8 x `
+`,
+}")).
+Eval vm_compute in ("<<<M2676>>>" ++ check (runes_of_ascii "options { options = 1; }")).
+Eval vm_compute in ("<<<M588>>>" ++ check (runes_of_ascii "
+packet
+options1 {
+}
+")).
+Eval vm_compute in ("<<<M3608>>>" ++ check (runes_of_ascii "MetaData metadata {
+}")).
+Eval vm_compute in ("<<<M2547>>>" ++ check (runes_of_ascii ": , ; = ( ) [ ] { }")).
+Eval vm_compute in ("<<<M2763>>>" ++ check (runes_of_ascii "zchar[ false match")).
+Eval vm_compute in ("<<<M3168>>>" ++ check (runes_of_ascii "// c" ++ [65279]%N ++ runes_of_ascii "
 packet A {
 }")).
-Eval vm_compute in ("<<<M1718>>>" ++ check (runes_of_ascii "root packet u {
+Eval vm_compute in ("<<<M3120>>>" ++ check (runes_of_ascii "packet A {
+}// c" ++ [8202]%N)).
+Eval vm_compute in ("<<<M4286>>>" ++ check (runes_of_ascii "packet zchar {
 }")).
-Eval vm_compute in ("<<<M363>>>" ++ check (runes_of_ascii "// c
-
-
+Eval vm_compute in ("<<<M142>>>" ++ check (runes_of_ascii "  options{ }
 ")).
-Eval vm_compute in ("<<<M722>>>" ++ check (runes_of_ascii "
-	 ")).
+Eval vm_compute in ("<<<M2495>>>" ++ check (runes_of_ascii "@lengthOf (")).
+Eval vm_compute in ("<<<M2838>>>" ++ check (runes_of_ascii "char[] as")).
+Eval vm_compute in ("<<<M2825>>>" ++ check (runes_of_ascii "VXXc)1g")).
+Eval vm_compute in ("<<<M2438>>>" ++ check (runes_of_ascii "char_")).
+Eval vm_compute in ("<<<M3136>>>" ++ check (runes_of_ascii "// c" ++ [8239]%N)).
+Eval vm_compute in ("<<<M2841>>>" ++ check (runes_of_ascii "D-{a")).
+Eval vm_compute in ("<<<M2559>>>" ++ check (runes_of_ascii "a" ++ [8232]%N ++ runes_of_ascii "b")).
+Eval vm_compute in ("<<<M2462>>>" ++ check (runes_of_ascii "a")).
